@@ -11,6 +11,14 @@
 // no handler, no RA diagnostics). APPEND probes generate Q behind earlier clean programs in the same holder / the
 // same Builder / Compiler (many functions per Compiler) and compare Q's slice with Q generated alone.
 //
+// Further steps: TWEAK (the user sets alignment / flags / offset / virtual size of the built-in .text section directly), holders
+// initialised through either init() overload with one of several CPU feature sets (kept by reinit(), dropped by reset(); the x86
+// allocator reads them), POKE (every public call on a DETACHED emitter must answer, call handlers and leave state exactly like an
+// emitter that was never attached), TO_OTHER_HOLDER / BACK (an emitter leaves the first holder - which lives on, is used, reset,
+// re-initialised, destroyed - generates a program in a SECOND live holder, is finalized there later and compared with fresh
+// objects, then comes back). Compiler functions draw calling convention, AVX / AVX-512, preserved FP and unavailable registers per
+// function. In the ASan build an ARENA WATCH poisons / quarantines what arenas retain over soft resets (see below).
+//
 // Modes:  (default) run histories [first, first+histories)   --only N : just history N (+ --dump: narrate)
 //         --shrink with --only N : delta-debug history N in fork()ed children, print the minimal history and its key
 //
@@ -69,6 +77,30 @@ static uint64_t g_pool_unaligned[2][3][7];    //   ... at an offset that is not 
 static uint64_t g_new_const[2][2][7];         // [family][scope][log2 size]: Compiler::new_const() calls
 static bool g_count_probe_calls = false;
 
+// ---- CPU features a holder is initialised with (CodeHolder::init(env, features, base): kept by reinit(), dropped by reset()).
+// Selector 0 = the two-argument overload init(env, base); 1 .. 3 = the three-argument overload with one of the sets below.
+// The x86 register allocator reads them (an operand that may be turned into a memory operand only when a feature is present).
+enum { kNumFeatSel = 4 };
+static CpuFeatures feat_of(int arch, int sel) {
+  CpuFeatures f;
+  if (arch == 2 /* A_A64 */) {
+    if (sel >= 2) f.add(CpuFeatures::ARM::kASIMD, CpuFeatures::ARM::kFP);
+    if (sel >= 3) f.add(CpuFeatures::ARM::kSVE, CpuFeatures::ARM::kLSE);
+  }
+  else {
+    if (sel >= 2) f.add(CpuFeatures::X86::kSSE2, CpuFeatures::X86::kSSE4_1, CpuFeatures::X86::kAVX, CpuFeatures::X86::kAVX2);
+    if (sel >= 3) f.add(CpuFeatures::X86::kAVX512_F, CpuFeatures::X86::kAVX512_BW, CpuFeatures::X86::kAVX512_VL);
+  }
+  return f;
+}
+
+// ---- per-function variation of Compiler functions (calling convention, AVX / AVX-512 enabled, preserved frame pointer, registers
+// made unavailable): one code per add_func(), logged so that the interpreter knows what the functions of one Compiler looked like
+static std::vector<uint32_t> g_fn_log;
+static uint64_t g_fn_variants[2][64];          // [family][variant code & 63]: functions generated by probes
+static uint64_t g_fn_cc[3][8];                 // [architecture][calling convention slot]: functions / invoked signatures of probes
+static uint64_t g_invoke_cc[3][8];
+
 // ---- heap perturbation: moves every later allocation (section buffers!) without touching the script ------------------
 static std::vector<void*> g_kept;
 static uint64_t g_perturb_calls = 0, g_perturb_blocks = 0, g_perturb_kept = 0;
@@ -108,12 +140,121 @@ static inline int text_residue(CodeHolder& code) {
 }
 
 // =========================================================================================================
+// Arena watch (ASan build): memory an arena RETAINS over a soft reset is poisoned until the arena hands it out again
+// =========================================================================================================
+// CodeHolder::reset(kSoft) / reinit(), a Builder's detach / reinit and the per-pass / per-function resets of the pass arena keep
+// the arena's blocks for reuse. A pointer into such a block that survived the reset (a free list, a cached node, a per-function
+// table) is invisible to ASan: the memory is still allocated. The watch closes that hole from the outside: the arenas of the
+// recycled objects are registered; the fault-point hook H1 (asked before EVERY arena request) is used as a notification - it never
+// fails a request. At every notification, and after every API call of the harness, each registered arena is looked at: when it
+// stands at the start of its first block again after having handed out memory it has been reset, and everything it retains
+// ([_ptr, _end) of the first block and the payload of all later blocks; block headers stay accessible) is poisoned with
+// ASAN_POISON_MEMORY_REGION. Before a request is served the region the request can be served from is unpoisoned (in every registered
+// arena, the hook does not say which one asks; at the next look the speculation is undone in the arenas that did not move). Any
+// access of asmjit to retained memory it has not been given again is then an ASan "use-after-poison" report.
+#if defined(__SANITIZE_ADDRESS__)
+#include <sanitizer/asan_interface.h>
+struct ArenaWatch {
+  Arena* a; const void* seen_first = nullptr; const void* seen_cur = nullptr; const uint8_t* seen_ptr = nullptr; bool used = false;
+  struct Region { uint8_t* p; size_t n; } spec[2]; int nspec = 0;
+};
+static std::vector<ArenaWatch> g_watch;
+static uint64_t g_aw_resets = 0, g_aw_resets_retaining = 0, g_aw_bytes = 0, g_aw_requests = 0, g_aw_tracked = 0, g_aw_blocks = 0, g_aw_quar_blocks = 0, g_aw_quar_bytes = 0;
+static inline uint8_t* aw_block_begin(Arena::ManagedBlock* b) { return Support::align_up(b->data(), Arena::kAlignment); }
+// QUARANTINE mode (half of the histories): memory that is handed out again right after the reset cannot be told from a stale use.
+// So the blocks a reset arena retains are taken away from it (it stands as after a hard reset and allocates new blocks; a static
+// first block stays) and are kept, entirely poisoned, until the history ends: a stale pointer into them is reported however late
+// it is used. The other half of the histories keeps the retained blocks in place (the reuse path itself is exercised).
+static bool g_aw_quarantine = false;
+struct QBlock { void* p; size_t n; };
+static std::vector<QBlock> g_quar;
+static Arena::ManagedBlock* aw_zero_block() { static Arena::ManagedBlock* z = []() { Arena t(1024); return t._first_block; }(); return z; }
+static void aw_quarantine(ArenaWatch& w) {
+  Arena& a = *w.a; Arena::ManagedBlock* first = a._first_block; Arena::ManagedBlock* chain;
+  if (a.has_static_block()) { chain = first->next; first->next = nullptr; }
+  else {
+    Arena::ManagedBlock* z = aw_zero_block();
+    if (first == z) return;
+    chain = first; a._first_block = z; a._current_block = z; a._ptr = aw_block_begin(z); a._end = z->end();
+  }
+  while (chain) {
+    Arena::ManagedBlock* next = chain->next; size_t total = sizeof(Arena::ManagedBlock) + chain->size;
+    ASAN_POISON_MEMORY_REGION(chain, total); g_quar.push_back({ chain, total }); g_aw_quar_blocks++; g_aw_quar_bytes += total;
+    chain = next;
+  }
+}
+static void aw_release_quarantine() { for (auto& q : g_quar) { ASAN_UNPOISON_MEMORY_REGION(q.p, q.n); free(q.p); } g_quar.clear(); }
+static void aw_poison_free(ArenaWatch& w) {
+  Arena& a = *w.a; size_t total = 0;
+  if (a._end > a._ptr) { ASAN_POISON_MEMORY_REGION(a._ptr, size_t(a._end - a._ptr)); total += size_t(a._end - a._ptr); }
+  for (Arena::ManagedBlock* b = a._current_block->next; b; b = b->next) {
+    uint8_t* p = aw_block_begin(b);
+    if (b->end() > p) { ASAN_POISON_MEMORY_REGION(p, size_t(b->end() - p)); total += size_t(b->end() - p); g_aw_blocks++; }
+  }
+  g_aw_resets++; if (total) g_aw_resets_retaining++; g_aw_bytes += total;
+}
+static void aw_look(ArenaWatch& w) {
+  Arena& a = *w.a;
+  bool moved = a._first_block != w.seen_first || a._current_block != w.seen_cur || a._ptr != w.seen_ptr;
+  if (w.nspec) {
+    if (!moved) { for (int i = 0; i < w.nspec; i++) ASAN_POISON_MEMORY_REGION(w.spec[i].p, w.spec[i].n); }
+    else if (a._current_block == w.seen_cur && w.nspec == 1 && a._ptr > w.spec[0].p && a._ptr < w.spec[0].p + w.spec[0].n)
+      ASAN_POISON_MEMORY_REGION(a._ptr, size_t(w.spec[0].p + w.spec[0].n - a._ptr));   // the request was smaller than the rounded guess
+    w.nspec = 0;
+  }
+  if (moved) w.used = true;
+  Arena::ManagedBlock* first = a._first_block;
+  if (w.used && a._current_block == first && a._ptr == aw_block_begin(first)) { if (g_aw_quarantine) aw_quarantine(w); aw_poison_free(w); w.used = false; }
+  w.seen_first = a._first_block; w.seen_cur = a._current_block; w.seen_ptr = a._ptr;
+}
+static void aw_poll() { for (auto& w : g_watch) aw_look(w); }
+// H1: a request of `size` bytes is about to be served by SOME arena
+static bool aw_hook(size_t size) {
+  g_aw_requests++;
+  for (auto& w : g_watch) {
+    aw_look(w);
+    Arena& a = *w.a;
+    size_t rounded = Support::align_up(size, Arena::kAlignment);
+    if (size <= Arena::kMaxReusableSlotSize) { size_t r2 = Arena::kMinReusableSlotSize; while (r2 < size) r2 <<= 1; if (r2 > rounded) rounded = r2; }
+    size_t rem = size_t(a._end - a._ptr);
+    if (rounded <= rem) { ASAN_UNPOISON_MEMORY_REGION(a._ptr, rounded); w.spec[0] = { a._ptr, rounded }; w.nspec = 1; continue; }
+    if (rem) { ASAN_UNPOISON_MEMORY_REGION(a._ptr, rem); w.spec[w.nspec++] = { a._ptr, rem }; }   // (the leftover is cut into reusable slots)
+    for (Arena::ManagedBlock* b = a._current_block->next; b; b = b->next) {
+      uint8_t* p = aw_block_begin(b); size_t room = b->end() > p ? size_t(b->end() - p) : 0;
+      if (size <= room) { size_t n = rounded < room ? rounded : room; ASAN_UNPOISON_MEMORY_REGION(p, n); w.spec[w.nspec++] = { p, n }; break; }
+    }
+  }
+  return false;
+}
+static void aw_track(Arena* a) { ArenaWatch w; w.a = a; w.seen_first = a->_first_block; w.seen_cur = a->_current_block; w.seen_ptr = a->_ptr; g_watch.push_back(w); g_aw_tracked++; asmjit_verif_arena_fail_fn = aw_hook; }
+// The arena is about to be destroyed (or its static block reused by the harness): nothing of it may stay poisoned.
+static void aw_untrack(Arena* a) {
+  for (size_t i = 0; i < g_watch.size(); i++) if (g_watch[i].a == a) { g_watch[i] = g_watch.back(); g_watch.pop_back(); break; }
+  for (Arena::ManagedBlock* b = a->_first_block; b; b = b->next) if (b->size) ASAN_UNPOISON_MEMORY_REGION(b->data(), b->size);
+}
+struct AwPause { bool (*saved)(size_t); AwPause() : saved(asmjit_verif_arena_fail_fn) { asmjit_verif_arena_fail_fn = nullptr; } ~AwPause() { asmjit_verif_arena_fail_fn = saved; } };
+#else
+static uint64_t g_aw_resets = 0, g_aw_resets_retaining = 0, g_aw_bytes = 0, g_aw_requests = 0, g_aw_tracked = 0, g_aw_blocks = 0, g_aw_quar_blocks = 0, g_aw_quar_bytes = 0;
+static bool g_aw_quarantine = false;
+static inline void aw_release_quarantine() {}
+static inline void aw_poll() {}
+static inline void aw_track(Arena*) {}
+static inline void aw_untrack(Arena*) {}
+struct AwPause { AwPause() {} ~AwPause() {} };
+#endif
+static void aw_track_emitter(BaseEmitter* em, int kind, bool on) {
+  if (kind == 0 /* K_ASM */) return;
+  BaseBuilder* b = static_cast<BaseBuilder*>(em);
+  if (on) { aw_track(&b->_builder_arena); aw_track(&b->_pass_arena); } else { aw_untrack(&b->_builder_arena); aw_untrack(&b->_pass_arena); }
+}
+
+// =========================================================================================================
 // Trace of error codes (one entry per API call of a program) and observation of a holder
 // =========================================================================================================
 
 struct Trace {
   std::string s; uint32_t nerr = 0, n = 0;
-  void rec(Error e) { static const char* d = "0123456789abcdef"; uint32_t v = uint32_t(e); s += d[(v >> 4) & 15]; s += d[v & 15]; n++; if (e != Error::kOk) nerr++; }
+  void rec(Error e) { static const char* d = "0123456789abcdef"; uint32_t v = uint32_t(e); s += d[(v >> 4) & 15]; s += d[v & 15]; n++; if (e != Error::kOk) nerr++; aw_poll(); }
   void flag(bool ok) { s += ok ? '+' : '-'; }
 };
 
@@ -286,6 +427,7 @@ enum : unsigned {
   F_SECTIONS = 32, F_RELOCS = 64,
   F_ABSCALL = 256,  // calls absolute addresses: position dependent once the holder knows its base address
   F_ABS32 = 128,    // 32-bit x86: references labels by absolute address (relocation payload depends on the position)
+  F_FEAT = 1024,     // the allocator consults the holder's CPU features for it
   F_WIDEALIGN = 512, // pads to 32 / 64 bytes at offsets that are not multiples of it (output would show a dependence on the buffer address mod 64)
 };
 
@@ -640,10 +782,43 @@ static void xp_leftover(Ctx& c) {
 // ---- x86 / x86-64 Compiler functions ----------------------------------------------------------------------
 static inline uint64_t callee_addr(int arch, int which) { return arch == A_X86 ? 0x08123450ull + which * 0x40 : 0x00007F0011223300ull + which * 0x40; }
 
+// What the allocator derives per function from the signature and the frame: calling convention (argument registers, preserved set,
+// who pops the stack, spill zone), AVX / AVX-512 enabled (move instructions, 16 vs 32 vector registers), preserved frame pointer and
+// registers made unavailable. Drawn per function from the program's RNG - two functions of one Compiler usually differ.
+#define ADD_FUNC(cc, ...) FnVar fv = fn_var(c, r); FuncNode* fn = cc.add_func(FuncSignature::build<__VA_ARGS__>(fv.cc)); \
+  c.tr.flag(fn != nullptr); if (!fn) return; fn_apply(c, fn, fv)
+struct FnVar { CallConvId cc; int slot; bool avx, avx512, fp, unav; uint32_t code; };
+static const CallConvId kCCx64[4] = { CallConvId::kCDecl, CallConvId::kX64SystemV, CallConvId::kX64Windows, CallConvId::kVectorCall };
+static const CallConvId kCCx86[5] = { CallConvId::kCDecl, CallConvId::kStdCall, CallConvId::kFastCall, CallConvId::kRegParm3, CallConvId::kVectorCall };
+static const char* kCCNames[3][5] = { { "cdecl", "sysv", "win64", "vectorcall", "" }, { "cdecl", "stdcall", "fastcall", "regparm3", "vectorcall" }, { "cdecl", "", "", "", "" } };
+static CallConvId draw_cc(Ctx& c, Rng& r, int* slot) {
+  if (c.arch == A_A64) { *slot = 0; return CallConvId::kCDecl; }
+  int n = c.arch == A_X64 ? 4 : 5;
+  *slot = r.chance(2, 5) ? 0 : 1 + int(r.below(uint64_t(n - 1)));
+  return c.arch == A_X64 ? kCCx64[*slot] : kCCx86[*slot];
+}
+static FnVar fn_var(Ctx& c, Rng& r) {
+  FnVar v {};
+  v.cc = draw_cc(c, r, &v.slot);
+  bool x = c.arch != A_A64;
+  v.avx512 = x && r.chance(1, 5); v.avx = x && (v.avx512 || r.chance(1, 3));
+  v.fp = r.chance(1, 3); v.unav = r.chance(1, 4);
+  v.code = uint32_t(v.slot) | uint32_t(v.avx) << 3 | uint32_t(v.avx512) << 4 | uint32_t(v.fp) << 5 | uint32_t(v.unav) << 6;
+  return v;
+}
+static void fn_apply(Ctx& c, FuncNode* fn, const FnVar& v) {
+  FuncFrame& fr = fn->frame();
+  if (v.avx) fr.set_avx_enabled();
+  if (v.avx512) fr.set_avx512_enabled();
+  if (v.fp) fr.set_preserved_fp();
+  if (v.unav) fr.add_unavailable_regs(RegGroup::kGp, c.arch == A_X86 ? 0x40u /* esi */ : c.arch == A_X64 ? 0x3040u /* rsi r12 r13 */ : 0x180200u /* x9 x19 x20 */);
+  g_fn_log.push_back(v.code);
+  if (c.counted) { g_fn_variants[fam_of(c.arch)][v.code & 63]++; g_fn_cc[c.arch][v.slot]++; }
+}
+
 static void xf_spill(x86::Compiler& cc, Ctx& c, Rng& r) {
   bool w = c.arch == A_X64;
-  FuncNode* fn = cc.add_func(FuncSignature::build<int, int*, int>());
-  c.tr.flag(fn != nullptr); if (!fn) return;
+  ADD_FUNC(cc, int, int*, int);
   x86::Gp p = cc.new_gp_ptr("p"), n = cc.new_gp32("n");
   fn->set_arg(0, p); fn->set_arg(1, n);
   uint32_t nregs = (w ? 17 : 9) + uint32_t(r.below(6));
@@ -667,8 +842,7 @@ static void xf_spill(x86::Compiler& cc, Ctx& c, Rng& r) {
 
 static void xf_vec(x86::Compiler& cc, Ctx& c, Rng& r) {
   bool w = c.arch == A_X64;
-  FuncNode* fn = cc.add_func(FuncSignature::build<int, int>());
-  c.tr.flag(fn != nullptr); if (!fn) return;
+  ADD_FUNC(cc, int, int);
   x86::Gp sum = cc.new_gp32("vsum");
   fn->set_arg(0, sum);
   std::vector<x86::Vec> x;
@@ -682,8 +856,7 @@ static void xf_vec(x86::Compiler& cc, Ctx& c, Rng& r) {
 }
 
 static void xf_invoke(x86::Compiler& cc, Ctx& c, Rng& r) {
-  FuncNode* fn = cc.add_func(FuncSignature::build<int, int, int>());
-  c.tr.flag(fn != nullptr); if (!fn) return;
+  ADD_FUNC(cc, int, int, int);
   x86::Gp a = cc.new_gp32("a"), b = cc.new_gp32("b");
   fn->set_arg(0, a); fn->set_arg(1, b);
   std::vector<x86::Gp> t;
@@ -691,7 +864,8 @@ static void xf_invoke(x86::Compiler& cc, Ctx& c, Rng& r) {
   T(cc.add(t[0], a)); T(cc.add(t[1], b));
   for (int rep = 0; rep < 1 + int(c.seed & 1); rep++) {
     InvokeNode* inv = nullptr;
-    T(cc.invoke(Out(inv), imm(callee_addr(c.arch, 1)), FuncSignature::build<int, int, int, int, int, int, int, int, int, int, int>()));
+    int islot; CallConvId icc = draw_cc(c, r, &islot); if (c.counted) g_invoke_cc[c.arch][islot]++;   // callee pops the stack / shadow space / other argument registers
+    T(cc.invoke(Out(inv), imm(callee_addr(c.arch, 1)), FuncSignature::build<int, int, int, int, int, int, int, int, int, int, int>(icc)));
     if (inv) { for (uint32_t i = 0; i < 10; i++) inv->set_arg(i, t[(i + rep) % 10]); inv->set_ret(0, t[rep]); }
   }
   x86::Vec d0 = cc.new_xmm_sd("d0"), d1 = cc.new_xmm_sd("d1");
@@ -707,8 +881,7 @@ static void xf_invoke(x86::Compiler& cc, Ctx& c, Rng& r) {
 
 static void xf_jumptab(x86::Compiler& cc, Ctx& c, Rng& r) {
   bool w = c.arch == A_X64;
-  FuncNode* fn = cc.add_func(FuncSignature::build<int, int, int>());
-  c.tr.flag(fn != nullptr); if (!fn) return;
+  ADD_FUNC(cc, int, int, int);
   x86::Gp op = cc.new_gp32("op"), val = cc.new_gp32("val"), target = cc.new_gp_ptr("target"), offset = cc.new_gp_ptr("offset");
   fn->set_arg(0, op); fn->set_arg(1, val);
   uint32_t ncase = 3 + uint32_t(r.below(5));
@@ -740,8 +913,7 @@ static void xf_jumptab(x86::Compiler& cc, Ctx& c, Rng& r) {
 }
 
 static void xf_cpool(x86::Compiler& cc, Ctx& c, Rng& r, bool global) {
-  FuncNode* fn = cc.add_func(FuncSignature::build<int, int>());
-  c.tr.flag(fn != nullptr); if (!fn) return;
+  ADD_FUNC(cc, int, int);
   x86::Gp a = cc.new_gp32("a");
   fn->set_arg(0, a);
   x86::Vec x0 = cc.new_xmm("c0"), x1 = cc.new_xmm("c1");
@@ -764,6 +936,59 @@ static void xf_cpool(x86::Compiler& cc, Ctx& c, Rng& r, bool global) {
   T(cc.end_func());
 }
 
+
+// Vector shifts by immediate: their register source may be turned into a memory operand only when the HOLDER's CPU features
+// (CodeHolder::init(env, features)) include AVX-512. Under register pressure the allocator's output therefore depends on
+// CodeHolder::cpu_features() - which reinit() keeps and reset() drops.
+static void xf_rmfeat(x86::Compiler& cc, Ctx& c, Rng& r) {
+  bool w = c.arch == A_X64;
+  FnVar fv = fn_var(c, r); fv.avx = true; fv.avx512 = false; fv.code = (fv.code | 8u) & ~16u;   // VEX moves, 16 vector registers
+  FuncNode* fn = cc.add_func(FuncSignature::build<int, int>(fv.cc));
+  c.tr.flag(fn != nullptr); if (!fn) return;
+  fn_apply(c, fn, fv);
+  x86::Gp a = cc.new_gp32("a");
+  fn->set_arg(0, a);
+  uint32_t nx = (w ? 18u : 10u) + uint32_t(r.below(3));
+  std::vector<x86::Vec> x;
+  for (uint32_t i = 0; i < nx; i++) { x.push_back(cc.new_xmm("s%u", i)); T(cc.vmovd(x[i], a)); T(cc.vpaddd(x[i], x[i], x[i])); }
+  x86::Vec acc = cc.new_xmm("acc"), t = cc.new_xmm("t");
+  T(cc.vpxor(acc, acc, acc));
+  for (uint32_t rep = 0; rep < 2; rep++)
+    for (uint32_t i = 0; i < nx; i++) {
+      switch ((i + rep + uint32_t(c.seed)) % 5) {
+        case 0: T(cc.vpslld(t, x[i], imm(3))); break;
+        case 1: T(cc.vpsrlw(t, x[i], imm(2))); break;
+        case 2: T(cc.vpsrad(t, x[i], imm(1 + (c.seed & 3)))); break;
+        case 3: T(cc.vpsllq(t, x[i], imm(5))); break;
+        default: T(cc.vpsrldq(t, x[i], imm(4))); break;
+      }
+      T(cc.vpaddd(acc, acc, t));
+    }
+  x86::Gp g = cc.new_gp32("g");
+  T(cc.pextrw(g, acc, imm(uint32_t(c.seed & 7))));
+  T(cc.add(a, g));
+  T(cc.vmovd(g, acc));
+  T(cc.add(a, g));
+  T(cc.ret(a));
+  T(cc.end_func());
+}
+
+// Ten integer arguments, all live at once: more arguments than argument registers (stack arguments; on 32-bit targets arguments
+// that stay in their stack slot), callee-pops conventions return with `ret imm`.
+static void xf_manyargs(x86::Compiler& cc, Ctx& c, Rng& r) {
+  ADD_FUNC(cc, int, int, int, int, int, int, int, int, int, int, int);
+  std::vector<x86::Gp> a;
+  for (uint32_t i = 0; i < 10; i++) { a.push_back(cc.new_gp32("arg%u", i)); fn->set_arg(i, a[i]); }
+  uint32_t nt = 2 + uint32_t(r.below(6));
+  std::vector<x86::Gp> t;
+  for (uint32_t i = 0; i < nt; i++) { t.push_back(cc.new_gp32("m%u", i)); T(cc.mov(t[i], int(i * 7 + 1))); }
+  for (uint32_t i = 0; i < nt; i++) T(cc.imul(t[i], a[(i * 3) % 10]));
+  for (uint32_t i = 1; i < 10; i++) T(cc.add(a[0], a[i]));
+  for (uint32_t i = 0; i < nt; i++) T(cc.add(a[0], t[i]));
+  T(cc.ret(a[0]));
+  T(cc.end_func());
+}
+
 #define XC x86::Compiler& cc = *static_cast<x86::Compiler*>(c.e)
 static void xc_spill(Ctx& c) { XC; Rng r(c.seed * 211 + 1); xf_spill(cc, c, r); }
 static void xc_vec(Ctx& c) { XC; Rng r(c.seed * 211 + 2); xf_vec(cc, c, r); }
@@ -771,12 +996,17 @@ static void xc_invoke(Ctx& c) { XC; Rng r(c.seed * 211 + 3); xf_invoke(cc, c, r)
 static void xc_jumptab(Ctx& c) { XC; Rng r(c.seed * 211 + 4); xf_jumptab(cc, c, r); }
 static void xc_cpool(Ctx& c) { XC; Rng r(c.seed * 211 + 5); xf_cpool(cc, c, r, false); }
 static void xc_gcpool(Ctx& c) { XC; Rng r(c.seed * 211 + 6); xf_cpool(cc, c, r, true); if (c.seed & 1) xf_cpool(cc, c, r, true); }
+static void xc_rmfeat(Ctx& c) { XC; Rng r(c.seed * 211 + 10); xf_rmfeat(cc, c, r); }
+static void xc_manyargs(Ctx& c) { XC; Rng r(c.seed * 211 + 11); xf_manyargs(cc, c, r); }
 static void xc_multi(Ctx& c) {
   XC; Rng r(c.seed * 211 + 7);
   uint32_t n = 3 + uint32_t(r.below(3));
   for (uint32_t i = 0; i < n; i++) {
     T(cc.align(AlignMode::kCode, 16));
-    switch ((c.seed + i * 3) % 5) { case 0: xf_spill(cc, c, r); break; case 1: xf_vec(cc, c, r); break; case 2: xf_invoke(cc, c, r); break; case 3: xf_jumptab(cc, c, r); break; default: xf_cpool(cc, c, r, false); break; }
+    switch ((c.seed + i * 3) % 7) {
+      case 0: xf_spill(cc, c, r); break; case 1: xf_vec(cc, c, r); break; case 2: xf_invoke(cc, c, r); break; case 3: xf_jumptab(cc, c, r); break;
+      case 4: xf_cpool(cc, c, r, false); break; case 5: xf_rmfeat(cc, c, r); break; default: xf_manyargs(cc, c, r); break;
+    }
   }
 }
 // Two functions that use the same virtual registers (created before the first function).
@@ -786,8 +1016,7 @@ static void xc_shared(Ctx& c) {
   std::vector<x86::Gp> v;
   for (uint32_t i = 0; i < 16; i++) v.push_back(cc.new_gp32("sv%u", i));
   for (int f = 0; f < 2; f++) {
-    FuncNode* fn = cc.add_func(FuncSignature::build<int, int>());
-    c.tr.flag(fn != nullptr); if (!fn) return;
+    ADD_FUNC(cc, int, int);
     fn->set_arg(0, s0);
     T(cc.mov(s1, 5 + f));
     uint32_t nv = f == 0 ? 16u : 4u + uint32_t(r.below(4));     // the first function spills, the second does not have to
@@ -800,9 +1029,8 @@ static void xc_shared(Ctx& c) {
 }
 // A function that is never closed and jumps to a label nobody binds.
 static void xc_open(Ctx& c) {
-  XC;
-  FuncNode* fn = cc.add_func(FuncSignature::build<int, int>());
-  c.tr.flag(fn != nullptr); if (!fn) return;
+  XC; Rng r(c.seed * 211 + 9);
+  ADD_FUNC(cc, int, int);
   x86::Gp a = cc.new_gp32("a"), b = cc.new_gp32("b");
   fn->set_arg(0, a);
   Label nowhere = cc.new_label();
@@ -1035,8 +1263,7 @@ static void ap_leftover(Ctx& c) {
 
 // ---- AArch64 Compiler functions ------------------------------------------------------------------------------
 static void af_spill(a64::Compiler& cc, Ctx& c, Rng& r) {
-  FuncNode* fn = cc.add_func(FuncSignature::build<int, int*, int>());
-  c.tr.flag(fn != nullptr); if (!fn) return;
+  ADD_FUNC(cc, int, int*, int);
   a64::Gp p = cc.new_gp_ptr("p"), n = cc.new_gp32("n");
   fn->set_arg(0, p); fn->set_arg(1, n);
   uint32_t nregs = 32 + uint32_t(r.below(6));
@@ -1058,8 +1285,7 @@ static void af_spill(a64::Compiler& cc, Ctx& c, Rng& r) {
 }
 
 static void af_vec(a64::Compiler& cc, Ctx& c, Rng& r) {
-  FuncNode* fn = cc.add_func(FuncSignature::build<int, int>());
-  c.tr.flag(fn != nullptr); if (!fn) return;
+  ADD_FUNC(cc, int, int);
   a64::Gp sum = cc.new_gp32("sum");
   fn->set_arg(0, sum);
   std::vector<a64::Vec> q;
@@ -1073,8 +1299,7 @@ static void af_vec(a64::Compiler& cc, Ctx& c, Rng& r) {
 }
 
 static void af_invoke(a64::Compiler& cc, Ctx& c, Rng& r) {
-  FuncNode* fn = cc.add_func(FuncSignature::build<int, int, int>());
-  c.tr.flag(fn != nullptr); if (!fn) return;
+  ADD_FUNC(cc, int, int, int);
   a64::Gp a = cc.new_gp32("a"), b = cc.new_gp32("b"), f = cc.new_gp_ptr("fn");
   fn->set_arg(0, a); fn->set_arg(1, b);
   std::vector<a64::Gp> t;
@@ -1096,8 +1321,7 @@ static void af_invoke(a64::Compiler& cc, Ctx& c, Rng& r) {
 }
 
 static void af_jumptab(a64::Compiler& cc, Ctx& c, Rng& r, int cpool /*0 none, 1 local, 2 global*/) {
-  FuncNode* fn = cc.add_func(FuncSignature::build<int, int, int>());
-  c.tr.flag(fn != nullptr); if (!fn) return;
+  ADD_FUNC(cc, int, int, int);
   a64::Gp op = cc.new_gp32("op"), val = cc.new_gp32("val"), target = cc.new_gp_ptr("target"), offset = cc.new_gp_ptr("offset");
   fn->set_arg(0, op); fn->set_arg(1, val);
   uint32_t ncase = 3 + uint32_t(r.below(4));
@@ -1140,6 +1364,21 @@ static void af_jumptab(a64::Compiler& cc, Ctx& c, Rng& r, int cpool /*0 none, 1 
   for (auto& l : cs) T(cc.embed_label_delta(l, tab, 4));
 }
 
+
+static void af_manyargs(a64::Compiler& cc, Ctx& c, Rng& r) {
+  ADD_FUNC(cc, int, int, int, int, int, int, int, int, int, int, int);
+  std::vector<a64::Gp> a;
+  for (uint32_t i = 0; i < 10; i++) { a.push_back(cc.new_gp32("arg%u", i)); fn->set_arg(i, a[i]); }
+  uint32_t nt = 2 + uint32_t(r.below(6));
+  std::vector<a64::Gp> t;
+  for (uint32_t i = 0; i < nt; i++) { t.push_back(cc.new_gp32("m%u", i)); T(cc.mov(t[i], uint64_t(i * 7 + 1))); }
+  for (uint32_t i = 0; i < nt; i++) T(cc.mul(t[i], t[i], a[(i * 3) % 10]));
+  for (uint32_t i = 1; i < 10; i++) T(cc.add(a[0], a[0], a[i]));
+  for (uint32_t i = 0; i < nt; i++) T(cc.add(a[0], a[0], t[i]));
+  T(cc.ret(a[0]));
+  T(cc.end_func());
+}
+
 #define AC a64::Compiler& cc = *static_cast<a64::Compiler*>(c.e)
 static void ac_spill(Ctx& c) { AC; Rng r(c.seed * 223 + 1); af_spill(cc, c, r); }
 static void ac_vec(Ctx& c) { AC; Rng r(c.seed * 223 + 2); af_vec(cc, c, r); }
@@ -1147,11 +1386,15 @@ static void ac_invoke(Ctx& c) { AC; Rng r(c.seed * 223 + 3); af_invoke(cc, c, r)
 static void ac_jumptab(Ctx& c) { AC; Rng r(c.seed * 223 + 4); af_jumptab(cc, c, r, 0); }
 static void ac_cpool(Ctx& c) { AC; Rng r(c.seed * 223 + 5); af_jumptab(cc, c, r, 1); }
 static void ac_gcpool(Ctx& c) { AC; Rng r(c.seed * 223 + 6); af_jumptab(cc, c, r, 2); }
+static void ac_manyargs(Ctx& c) { AC; Rng r(c.seed * 223 + 11); af_manyargs(cc, c, r); }
 static void ac_multi(Ctx& c) {
   AC; Rng r(c.seed * 223 + 7);
   uint32_t n = 3 + uint32_t(r.below(3));
   for (uint32_t i = 0; i < n; i++)
-    switch ((c.seed + i * 3) % 5) { case 0: af_spill(cc, c, r); break; case 1: af_vec(cc, c, r); break; case 2: af_invoke(cc, c, r); break; case 3: af_jumptab(cc, c, r, 0); break; default: af_jumptab(cc, c, r, 1); break; }
+    switch ((c.seed + i * 3) % 6) {
+      case 0: af_spill(cc, c, r); break; case 1: af_vec(cc, c, r); break; case 2: af_invoke(cc, c, r); break; case 3: af_jumptab(cc, c, r, 0); break;
+      case 4: af_jumptab(cc, c, r, 1); break; default: af_manyargs(cc, c, r); break;
+    }
 }
 static void ac_shared(Ctx& c) {
   AC; Rng r(c.seed * 223 + 8);
@@ -1159,8 +1402,7 @@ static void ac_shared(Ctx& c) {
   std::vector<a64::Gp> v;
   for (uint32_t i = 0; i < 32; i++) v.push_back(cc.new_gp32("sv%u", i));
   for (int f = 0; f < 2; f++) {
-    FuncNode* fn = cc.add_func(FuncSignature::build<int, int>());
-    c.tr.flag(fn != nullptr); if (!fn) return;
+    ADD_FUNC(cc, int, int);
     fn->set_arg(0, s0);
     T(cc.mov(s1, uint64_t(5 + f)));
     uint32_t nv = f == 0 ? 32u : 4u + uint32_t(r.below(4));
@@ -1172,9 +1414,8 @@ static void ac_shared(Ctx& c) {
   }
 }
 static void ac_open(Ctx& c) {
-  AC;
-  FuncNode* fn = cc.add_func(FuncSignature::build<int, int>());
-  c.tr.flag(fn != nullptr); if (!fn) return;
+  AC; Rng r(c.seed * 223 + 9);
+  ADD_FUNC(cc, int, int);
   a64::Gp a = cc.new_gp32("a"), b = cc.new_gp32("b");
   fn->set_arg(0, a);
   Label nowhere = cc.new_label();
@@ -1208,8 +1449,10 @@ static const Prog kProgs[] = {
   { "c_jumptab", { xc_jumptab, ac_jumptab },   KM_CMP,  F_CLEAN | F_TEXTONLY | F_ABS32 },
   { "c_cpool",   { xc_cpool, ac_cpool },       KM_CMP,  F_CLEAN | F_TEXTONLY | F_ABS32 | F_WIDEALIGN },
   { "c_gcpool",  { xc_gcpool, ac_gcpool },     KM_CMP,  F_CLEAN | F_GLOBALCP | F_WIDEALIGN },
-  { "c_multi",   { xc_multi, ac_multi },       KM_CMP,  F_CLEAN | F_TEXTONLY | F_RELOCS | F_ABS32 | F_ABSCALL | F_WIDEALIGN },
+  { "c_multi",   { xc_multi, ac_multi },       KM_CMP,  F_CLEAN | F_TEXTONLY | F_RELOCS | F_ABS32 | F_ABSCALL | F_WIDEALIGN | F_FEAT },
   { "c_shared",  { xc_shared, ac_shared },     KM_CMP,  F_CLEAN | F_TEXTONLY },
+  { "c_rmfeat",  { xc_rmfeat, nullptr },       KM_CMP,  F_CLEAN | F_TEXTONLY | F_FEAT },
+  { "c_manyargs",{ xc_manyargs, ac_manyargs }, KM_CMP,  F_CLEAN | F_TEXTONLY },
   { "c_open",    { xc_open, ac_open },         KM_CMP,  F_ERR | F_LEFTOVER },
 };
 static constexpr int kNumProgs = int(sizeof(kProgs) / sizeof(kProgs[0]));
@@ -1230,12 +1473,18 @@ static int pick_prog(Rng& r, int fam, int kind, unsigned need, unsigned forbid) 
 // =========================================================================================================
 
 struct ProbeSpec {
-  int arch, kind, prog; uint32_t seed; bool base; uint32_t val; int fin; bool post; bool append; std::string pfx;
+  int arch, kind, prog; uint32_t seed; bool base; uint32_t val; int fin; bool post; bool append; std::string pfx; int feat = 0;
   std::string str() const {
-    return fmtv("%s/%s/%s/s%u/base%d/val%u/fin%d/post%d/%s%s", kArchNames[arch], kKindNames[kind], kProgs[prog].name, seed, int(base), val, fin, int(post),
+    return fmtv("%s/%s/%s/s%u/base%d/feat%d/val%u/fin%d/post%d/%s%s", kArchNames[arch], kKindNames[kind], kProgs[prog].name, seed, int(base), feat, val, fin, int(post),
                 append ? "append:" : "full", append ? pfx.c_str() : "");
   }
 };
+
+// The holder's initialisation: selector 0 is the two-argument overload, 1 .. 3 pass a CPU feature set (see feat_of).
+static Error do_init(CodeHolder& code, int arch, bool base, int feat) {
+  uint64_t b = base ? base_of(arch) : Globals::kNoBaseAddress;
+  return feat == 0 ? code.init(Environment(arch_of(arch)), b) : code.init(Environment(arch_of(arch)), feat_of(arch, feat), b);
+}
 
 static BaseEmitter* mk_emitter(int fam, int kind) {
   if (fam == 0) return kind == K_ASM ? static_cast<BaseEmitter*>(new x86::Assembler()) : kind == K_BLD ? static_cast<BaseEmitter*>(new x86::Builder()) : static_cast<BaseEmitter*>(new x86::Compiler());
@@ -1244,25 +1493,32 @@ static BaseEmitter* mk_emitter(int fam, int kind) {
 
 // Generates Q through `em` (attached to `code`), finalizes, observes. `ser` = assembler to serialize into when fin == 1
 // (attached by the caller). Returns the number of failed calls.
-static uint32_t run_probe(CodeHolder& code, BaseEmitter* em, BaseEmitter* ser, const ProbeSpec& sp, Fields& F) {
-  Ctx c(code, em, sp.kind, sp.arch, sp.seed, sp.pfx);
+// Two halves, so that other things can happen between generating a program and finalizing / observing it.
+static void probe_generate(Ctx& c, const ProbeSpec& sp, Label& marker) {
   c.counted = g_count_probe_calls;
-  Label marker;
   if (sp.append) {
-    T(em->section(code.text_section()));   // (an assembler that was the target of serialize_to() stands in the LAST serialized section)
-    T(em->align(AlignMode::kCode, 64));
-    marker = em->new_label();
-    T(em->bind(marker));
+    T(c.e->section(c.code.text_section()));   // (an assembler that was the target of serialize_to() stands in the LAST serialized section)
+    T(c.e->align(AlignMode::kCode, 64));
+    marker = c.e->new_label();
+    T(c.e->bind(marker));
   }
   kProgs[sp.prog].fn[fam_of(sp.arch)](c);
+}
+static uint32_t probe_finish(Ctx& c, BaseEmitter* ser, const ProbeSpec& sp, const Label& marker, Fields& F) {
   if (sp.kind != K_ASM) {
-    BaseBuilder* b = static_cast<BaseBuilder*>(em);
+    BaseBuilder* b = static_cast<BaseBuilder*>(c.e);
     if (sp.fin == 1 && ser) { T(b->run_passes()); T(b->serialize_to(ser)); }
-    else T(em->finalize());
+    else T(c.e->finalize());
   }
   fadd(F, "trace", c.tr.s);
-  if (sp.append) observe_slice(code, marker, F); else observe_full(code, sp.arch, sp.post, F);
+  if (sp.append) observe_slice(c.code, marker, F); else observe_full(c.code, sp.arch, sp.post, F);
   return c.tr.nerr;
+}
+static uint32_t run_probe(CodeHolder& code, BaseEmitter* em, BaseEmitter* ser, const ProbeSpec& sp, Fields& F) {
+  Ctx c(code, em, sp.kind, sp.arch, sp.seed, sp.pfx);
+  Label marker;
+  probe_generate(c, sp, marker);
+  return probe_finish(c, ser, sp, marker, F);
 }
 
 struct FreshResult { Fields f; uint32_t nerr; uint64_t hash; int res64 = -1; };
@@ -1279,6 +1535,7 @@ static const FreshResult& fresh_control(const ProbeSpec& sp, uint64_t pseed = 0,
   auto it = g_fresh_cache.find(key);
   if (it != g_fresh_cache.end()) { g_fresh_hits++; return it->second; }
   g_fresh_runs++;
+  AwPause pause_watch;   // the control's own arenas are not watched
   if (g_fresh_cache.size() > 6000) g_fresh_cache.clear();
   FreshResult fr;
   Rng pr(fnv1a(key.data(), key.size(), pseed ^ 0xF5E5Dull));
@@ -1286,7 +1543,7 @@ static const FreshResult& fresh_control(const ProbeSpec& sp, uint64_t pseed = 0,
     if (attempt) { g_steer_retries++; fr = FreshResult(); }
     heap_perturb(pr, attempt ? g_last_text_capacity : 0);
     CodeHolder code;
-    Error ie = code.init(Environment(arch_of(sp.arch)), sp.base ? base_of(sp.arch) : Globals::kNoBaseAddress);
+    Error ie = do_init(code, sp.arch, sp.base, sp.feat);
     std::unique_ptr<BaseEmitter> em(mk_emitter(fam_of(sp.arch), sp.kind));
     std::unique_ptr<BaseEmitter> ser;
     Error ae = code.attach(em.get());
@@ -1314,7 +1571,7 @@ static uint64_t g_stale_log = 0, g_stale_eh = 0, g_log_calls = 0, g_eh_calls = 0
 struct SLog : public StringLogger { Watch w; Error _log(const char* d, size_t n) noexcept override { g_log_calls++; if (w.retired) g_stale_log++; return StringLogger::_log(d, n); } };
 static FILE* g_devnull = nullptr;
 struct FLog : public FileLogger { Watch w; FLog() : FileLogger(g_devnull) {} Error _log(const char* d, size_t n) noexcept override { g_log_calls++; if (w.retired) g_stale_log++; return FileLogger::_log(d, n); } };
-struct EH : public ErrorHandler { Watch w; void handle_error(Error, const char*, BaseEmitter*) override { g_eh_calls++; if (w.retired) g_stale_eh++; } };
+struct EH : public ErrorHandler { Watch w; uint64_t n = 0; void handle_error(Error, const char*, BaseEmitter*) override { g_eh_calls++; n++; if (w.retired) g_stale_eh++; } };
 
 struct Res {
   Logger* lg = nullptr; Watch* lgw = nullptr; EH* eh = nullptr;
@@ -1322,7 +1579,7 @@ struct Res {
 };
 struct Grave { Res r; int age; };
 
-struct HistCfg { uint32_t static_size = 0; bool noise = false; uint64_t pseed = 0; /* heap perturbation of this history */ };
+struct HistCfg { uint32_t static_size = 0; bool noise = false; uint64_t pseed = 0; /* heap perturbation of this history */ bool quarantine = false; /* arena watch mode */ };
 
 static const uint32_t kStaticSizes[] = { 24, 40, 64, 136, 520, 1000, 1003, 4104, 16384 + 24, 70000 };
 
@@ -1335,33 +1592,45 @@ struct Rig {
   std::vector<Grave> grave;
   std::vector<void*> noise;
   void* pending_str[2][3] = {};
+  // a SECOND holder: an emitter leaves the first one (which lives on and stays in use), works there and comes back
+  CodeHolder* code2 = nullptr;
+  CodeHolder* other() { if (!code2) { code2 = new CodeHolder(); aw_track(&code2->_arena); } return code2; }
+  void drop_other() { if (code2) { aw_untrack(&code2->_arena); delete code2; code2 = nullptr; } }
 
   explicit Rig(const HistCfg& h) : hc(h) {
     if (hc.static_size) { sbuf = (uint8_t*)malloc(hc.static_size); memset(sbuf, 0xA7, hc.static_size); code = new CodeHolder(Span<uint8_t>(sbuf, hc.static_size)); }
     else code = new CodeHolder();
+    aw_track(&code->_arena);
   }
   ~Rig() {
-    for (int f = 0; f < 2; f++) for (int k = 0; k < 3; k++) { delete em[f][k]; free(pending_str[f][k]); }
+    for (int f = 0; f < 2; f++) for (int k = 0; k < 3; k++) { drop(f, k); free(pending_str[f][k]); }
+    drop_other();
+    aw_untrack(&code->_arena);
     delete code;
     free(sbuf);
     free_res(holder_res);
     for (int f = 0; f < 2; f++) for (int k = 0; k < 3; k++) free_res(em_res[f][k]);
     for (auto& g : grave) free_res(g.r);
     for (void* p : noise) free(p);
+    aw_release_quarantine();
   }
   static void free_res(Res& r) { delete r.lg; delete r.eh; r = Res(); }
   void retire(Res& r) { if (!r.any()) return; if (r.lgw) r.lgw->retired = true; if (r.eh) r.eh->w.retired = true; grave.push_back(Grave{r, 0}); r = Res(); }
   void tick() {   // retired loggers / handlers are really freed a few steps later (ASan then sees any late use)
     for (size_t i = 0; i < grave.size();) { if (++grave[i].age > 5) { free_res(grave[i].r); grave[i] = grave.back(); grave.pop_back(); } else i++; }
   }
-  BaseEmitter* get(int fam, int k) { if (!em[fam][k]) em[fam][k] = mk_emitter(fam, k); return em[fam][k]; }
+  BaseEmitter* get(int fam, int k) { if (!em[fam][k]) { em[fam][k] = mk_emitter(fam, k); aw_track_emitter(em[fam][k], k, true); } return em[fam][k]; }
+  void drop(int fam, int k) { if (em[fam][k]) { aw_track_emitter(em[fam][k], k, false); delete em[fam][k]; em[fam][k] = nullptr; } }
   // The holder is destroyed (with emitters still attached) and ANOTHER holder takes its place; the emitters live on.
   void new_holder() {
+    aw_untrack(&code->_arena);
     code->~CodeHolder();
     if (hc.static_size) { memset(sbuf, 0xA7, hc.static_size); new (code) CodeHolder(Span<uint8_t>(sbuf, hc.static_size)); }
     else new (code) CodeHolder();
+    aw_track(&code->_arena);
   }
   bool attached(int fam, int k) const { return em[fam][k] && em[fam][k]->code() == code; }
+  size_t count_attached(const CodeHolder& h) const { size_t n = 0; for (int f = 0; f < 2; f++) for (int k = 0; k < 3; k++) if (em[f][k] && em[f][k]->code() == &h) n++; return n; }
 };
 
 static Res make_res(int log_kind, uint32_t fmt, bool want_eh) {
@@ -1390,9 +1659,9 @@ static void heap_noise(Rig& R, Rng& r) {
 // =========================================================================================================
 
 enum Op : uint8_t { OP_INIT, OP_SETCFG, OP_ATTACH, OP_DETACH, OP_GEN, OP_FINALIZE, OP_POST, OP_ONESHOT, OP_RESET_SOFT, OP_RESET_HARD, OP_REINIT,
-                    OP_RECREATE, OP_NOISE, OP_PROBE, OP_APROBE, OP_NEWHOLDER, OP_COUNT };
+                    OP_RECREATE, OP_NOISE, OP_PROBE, OP_APROBE, OP_NEWHOLDER, OP_TWEAK, OP_POKE, OP_MIGRATE_OUT, OP_MIGRATE_BACK, OP_COUNT };
 static const char* kOpNames[OP_COUNT] = { "init", "setcfg", "attach", "detach", "gen", "finalize", "post", "oneshot", "reset_soft", "reset_hard", "reinit",
-                                          "recreate", "noise", "probe", "aprobe", "newholder" };
+                                          "recreate", "noise", "probe", "aprobe", "newholder", "tweak", "poke", "to_other_holder", "back_from_other_holder" };
 struct Step { Op op; uint8_t kind = 0; uint8_t arch = 0; uint16_t prog = 0; uint32_t seed = 0; uint32_t a = 0, b = 0; };
 
 // SETCFG packing
@@ -1406,7 +1675,7 @@ static const uint32_t kDiagBits[] = { 0x1, 0x2, 0x80, 0xFF00 };   // kValidateAs
 static std::string step_token(const Step& s, bool full) {
   std::string o = kOpNames[s.op];
   switch (s.op) {
-    case OP_INIT: o += fmtv("(%s%s)", full ? kArchNames[s.arch] : (s.arch == A_A64 ? "a64" : "x86"), s.a ? ",base" : ""); break;
+    case OP_INIT: o += fmtv("(%s%s%s)", full ? kArchNames[s.arch] : (s.arch == A_A64 ? "a64" : "x86"), s.a ? ",base" : "", s.b ? (full ? fmtv(",features%u", s.b).c_str() : ",features") : ""); break;
     case OP_SETCFG: {
       o += fmtv("(%s", kKindNames[s.kind]);
       if (cfg_log(s.a)) o += fmtv(",log=%s@%s", cfg_log(s.a) == 1 ? "string" : "file", cfg_loglvl(s.a) ? "emitter" : "holder");
@@ -1418,6 +1687,10 @@ static std::string step_token(const Step& s, bool full) {
     case OP_ATTACH: o += fmtv("(%s%s)", kKindNames[s.kind], s.a ? ",wrong-arch" : ""); break;
     case OP_DETACH: case OP_FINALIZE: case OP_RECREATE: o += fmtv("(%s)", kKindNames[s.kind]); break;
     case OP_ONESHOT: o += fmtv("(%s,%u)", kKindNames[s.kind], s.a % 3); break;
+    case OP_POKE: o += fmtv("(%s)", kKindNames[s.kind]); break;
+    case OP_MIGRATE_OUT: o += fmtv("(%s:%s", kKindNames[s.kind], kProgs[s.prog].name); if (full) o += fmtv(",s%u", s.seed); o += ")"; break;
+    case OP_MIGRATE_BACK: { static const char* how[4] = { "detach", "reset_soft", "reset_hard", "destroy" }; o += fmtv("(%s,%s)", kKindNames[s.kind], how[s.a & 3]); break; }
+    case OP_TWEAK: o += fmtv("(.text:%s%s%s%s)", (s.a & 1) ? "alignment," : "", (s.a & 2) ? "flags," : "", (s.a & 4) ? "offset," : "", (s.a & 8) ? "virtual_size," : ""); break;
     case OP_GEN: o += fmtv("(%s:%s%s", kKindNames[s.kind], kProgs[s.prog].name, (s.a & 1) ? "+fin" : ""); if (full) o += fmtv(",s%u", s.seed); o += ")"; break;
     case OP_PROBE: case OP_APROBE:
       o += fmtv("(%s:%s", kKindNames[s.kind], kProgs[s.prog].name);
@@ -1443,6 +1716,7 @@ static void gen_history(Rng& r, HistCfg& hc, std::vector<Step>& S) {
     return s;
   };
   auto mk = [&](Op op, int kind = 0) { Step s; s.op = op; s.kind = uint8_t(kind); return s; };
+  auto rnd_feat = [&]() { uint32_t f = uint32_t(r.below(6)); return f < kNumFeatSel ? f : 0u; };   // half of the holders: init(env, base)
   auto mk_gen = [&](Op op, int kind, unsigned need, unsigned forbid) {
     Step s; s.op = op; s.kind = uint8_t(kind); s.prog = uint16_t(pick_prog(r, fam_of(arch), kind, need, forbid)); s.seed = uint32_t(r.below(8)); return s;
   };
@@ -1451,7 +1725,7 @@ static void gen_history(Rng& r, HistCfg& hc, std::vector<Step>& S) {
   bool append_style = r.chance(1, 4);
   if (append_style) {
     // init, clean programs through one or several emitters, then Q appended behind them
-    Step in = mk(OP_INIT); in.arch = uint8_t(arch); in.a = uint32_t(r.below(2)); S.push_back(in);
+    Step in = mk(OP_INIT); in.arch = uint8_t(arch); in.a = uint32_t(r.below(2)); in.b = rnd_feat(); S.push_back(in);
     int k = int(r.below(3));
     if (r.chance(2, 3)) S.push_back(rnd_cfg(k));
     S.push_back(mk(OP_ATTACH, k));
@@ -1478,17 +1752,19 @@ static void gen_history(Rng& r, HistCfg& hc, std::vector<Step>& S) {
   }
 
   int nep = 2 + int(r.below(3));
+  int away_k = -1;   // kind of the emitter that (probably) works on the other holder
   for (int ep = 0; ep < nep; ep++) {
     bool last = ep + 1 == nep;
     int k = int(r.below(3));
     // ---- how this epoch gets a clean holder
-    if (ep == 0) { Step in = mk(OP_INIT); in.arch = uint8_t(arch); in.a = uint32_t(r.below(2)); S.push_back(in); }
+    if (ep == 0) { Step in = mk(OP_INIT); in.arch = uint8_t(arch); in.a = uint32_t(r.below(2)); in.b = rnd_feat(); S.push_back(in); }
     else {
       switch (r.below(7)) {
         case 0: case 1: case 6: {
           S.push_back(mk(r.chance(1, 3) ? OP_NEWHOLDER : r.chance(1, 2) ? OP_RESET_SOFT : OP_RESET_HARD));
+          if (r.chance(1, 3)) S.push_back(mk(OP_POKE, int(r.below(3))));     // every emitter is detached now
           if (r.chance(1, 3)) arch = int(r.below(3));
-          Step in = mk(OP_INIT); in.arch = uint8_t(arch); in.a = uint32_t(r.below(2)); S.push_back(in);
+          Step in = mk(OP_INIT); in.arch = uint8_t(arch); in.a = uint32_t(r.below(2)); in.b = rnd_feat(); S.push_back(in);
           break;
         }
         case 2: case 3: S.push_back(mk(OP_REINIT)); break;
@@ -1497,6 +1773,7 @@ static void gen_history(Rng& r, HistCfg& hc, std::vector<Step>& S) {
       }
     }
     noise();
+    if (away_k >= 0 && r.chance(2, 3)) { Step m = mk(OP_MIGRATE_BACK, away_k); m.a = uint32_t(r.below(4)); S.push_back(m); away_k = -1; }   // back to a first holder that was cleaned meanwhile
     if (r.chance(ep == 0 ? 3 : 1, 4)) S.push_back(rnd_cfg(k));
     S.push_back(mk(OP_ATTACH, k));
     if (r.chance(1, 4)) S.push_back(mk(OP_ATTACH, int(r.below(3))));
@@ -1512,7 +1789,11 @@ static void gen_history(Rng& r, HistCfg& hc, std::vector<Step>& S) {
     uint32_t nj = uint32_t(r.below(5));
     for (uint32_t j = 0; j < nj; j++) {
       int jk = r.chance(2, 3) ? k : int(r.below(3));
-      switch (r.below(16)) {
+      switch (r.below(21)) {
+        case 17: S.push_back(mk(OP_POKE, int(r.below(3)))); break;
+        case 18: case 19: { Step m = mk_gen(OP_MIGRATE_OUT, jk, 0, 0); m.arch = uint8_t(arch); m.a = uint32_t(r.below(4)); S.push_back(m); if (away_k < 0) away_k = jk; break; }
+        case 20: { Step m = mk(OP_MIGRATE_BACK, away_k >= 0 ? away_k : int(r.below(3))); m.a = uint32_t(r.below(4)); S.push_back(m); away_k = -1; break; }
+        case 16: { Step t = mk(OP_TWEAK); t.a = 1 + uint32_t(r.below(15)); t.b = uint32_t(r.below(1000)); S.push_back(t); break; }
         case 0: case 1: case 2: case 3: case 4: case 5: {
           Step g = mk_gen(OP_GEN, jk, r.chance(1, 2) ? 0u : (r.chance(1, 2) ? unsigned(F_LEFTOVER) : unsigned(F_ERR)), 0);
           g.a = r.chance(1, 2) ? 1 : 0; S.push_back(g); break;
@@ -1520,7 +1801,7 @@ static void gen_history(Rng& r, HistCfg& hc, std::vector<Step>& S) {
         case 6: S.push_back(mk(OP_FINALIZE, jk)); break;
         case 7: S.push_back(mk(OP_POST)); break;
         case 8: case 9: { Step o = mk(OP_ONESHOT, jk); o.a = uint32_t(r.below(3)); S.push_back(o); break; }
-        case 10: S.push_back(mk(OP_DETACH, jk)); break;
+        case 10: S.push_back(mk(OP_DETACH, jk)); if (r.chance(1, 2)) S.push_back(mk(OP_POKE, jk)); break;
         case 11: S.push_back(mk(OP_ATTACH, jk)); break;
         case 12: S.push_back(mk(OP_RECREATE, jk)); break;
         case 13: { Step b = mk(r.chance(1, 2) ? OP_INIT : OP_ATTACH, jk); b.arch = uint8_t(arch); b.a = 1; S.push_back(b); break; }   // init twice / wrong family
@@ -1536,8 +1817,8 @@ static void gen_history(Rng& r, HistCfg& hc, std::vector<Step>& S) {
 // Public state of a clean holder + a freshly (re-)attached emitter
 // =========================================================================================================
 
-static void snapshot_state(CodeHolder& code, BaseEmitter* em, int kind, Logger* want_lg, ErrorHandler* want_eh, bool own_lg, bool own_eh,
-                           Logger* code_lg, ErrorHandler* code_eh, Fields& F) {
+static void snapshot_emitter(BaseEmitter* em, int kind, Logger* want_lg, ErrorHandler* want_eh, bool own_lg, bool own_eh, Fields& F) {
+  fadd(F, "em.code", em->code() ? "attached" : "null");
   fadd(F, "em.logger", em->logger() == want_lg ? "as installed" : "NOT the installed one");
   fadd(F, "em.error_handler", em->error_handler() == want_eh ? "as installed" : "NOT the installed one");
   fadd(F, "em.has_own_logger", em->has_own_logger() == own_lg ? "as installed" : (em->has_own_logger() ? "set, but no own logger installed" : "clear, but own logger installed"));
@@ -1566,11 +1847,35 @@ static void snapshot_state(CodeHolder& code, BaseEmitter* em, int kind, Logger* 
       fadd(F, "cmp.func", c->func() ? "open" : "null");
       fadd(F, "cmp.virt_regs", fmtv("%zu", c->virt_regs().size()));
       fadd(F, "cmp.jump_annotations", fmtv("%zu", c->jump_annotations().size()));
+      fadd(F, "cmp.const_pools", fmtv("local=%s global=%s", c->_const_pools[0] ? "set" : "null", c->_const_pools[1] ? "set" : "null"));
     }
   }
+}
+
+static void snapshot_state(CodeHolder& code, BaseEmitter* em, int kind, Logger* want_lg, ErrorHandler* want_eh, bool own_lg, bool own_eh,
+                           Logger* code_lg, ErrorHandler* code_eh, int arch, bool base, int feat, size_t expect_attached, Fields& F) {
+  snapshot_emitter(em, kind, want_lg, want_eh, own_lg, own_eh, F);
   fadd(F, "code.logger", code.logger() == code_lg ? "as installed" : "NOT the installed one");
   fadd(F, "code.error_handler", code.error_handler() == code_eh ? "as installed" : "NOT the installed one");
   fadd(F, "code.sections", fmtv("%zu text=%zu", code.section_count(), code.text_section()->buffer_size()));
+  {
+    // what the user may have set directly on the built-in section; (re-)initialisation must bring back the defaults
+    Section* t = code.text_section();
+    fadd(F, "code.text_section", fmtv("id%u '%s' flags%x align%u order%d offset%lld virtual_size%llu", t->section_id(), t->name(), unsigned(t->flags()), t->alignment(), t->order(), (long long)t->offset(), (ull)t->virtual_size()));
+  }
+  fadd(F, "code.cpu_features", code.cpu_features() == feat_of(arch, feat) ? "as passed to init" : "NOT what was passed to init");
+  fadd(F, "code.base_address", code.base_address() == (base ? base_of(arch) : Globals::kNoBaseAddress) ? "as passed to init" : "NOT what was passed to init");
+  fadd(F, "code.environment", code.environment() == Environment(arch_of(arch)) ? "as passed to init" : "NOT what was passed to init");
+  {
+    // the doubly linked list of attached emitters: as long as the emitters the user attached, links consistent in both directions
+    size_t n = 0; bool ok = true; BaseEmitter* prev = nullptr;
+    for (BaseEmitter* e = code._attached_first; e && n < 64; prev = e, e = e->_attached_next, n++) if (e->_attached_prev != prev || e->code() != &code) ok = false;
+    if (code._attached_last != prev || n != expect_attached) ok = false;
+    fadd(F, "code.attached_emitters", ok ? "the emitters that were attached, list consistent" : fmtv("list of %zu emitters (inconsistent or not the %zu attached ones)", n, expect_attached));
+  }
+  // containers without a public size: none of them may hold anything in a clean holder (they would point into recycled arena memory)
+  fadd(F, "code.internal_containers", fmtv("cross_section_fixups=%s fixup_pool=%s address_table_entries=%s address_table_section=%s named_labels=%zu",
+       code._fixups ? "set" : "null", code._fixup_data_pool._data ? "set" : "null", code._address_table_entries.is_empty() ? "empty" : "set", code._address_table_section ? "set" : "null", code._named_labels.size()));
   fadd(F, "code.labels", fmtv("%zu", code.label_count()));
   fadd(F, "code.relocs", fmtv("%zu", code.reloc_entries().size()));
   fadd(F, "code.fixups", fmtv("%zu addrtab=%d", code.unresolved_fixup_count(), int(code.has_address_table_section())));
@@ -1583,12 +1888,54 @@ static const Fields& fresh_state(int arch, int kind) {
   if (it != g_fresh_state.end()) return it->second;
   Fields F;
   {
+    AwPause pause_watch;
     CodeHolder code; (void)code.init(Environment(arch_of(arch)));
     std::unique_ptr<BaseEmitter> em(mk_emitter(fam_of(arch), kind));
     (void)code.attach(em.get());
-    snapshot_state(code, em.get(), kind, nullptr, nullptr, false, false, nullptr, nullptr, F);
+    snapshot_state(code, em.get(), kind, nullptr, nullptr, false, false, nullptr, nullptr, arch, false, 0, 1, F);
   }
   return g_fresh_state.emplace(key, std::move(F)).first->second;
+}
+
+// ---- a DETACHED emitter is still an object the user may call: every call must behave as on an emitter that was never attached
+struct PokeResult { std::string trace; uint64_t handler_calls; Fields state; };
+static void poke_calls(BaseEmitter* em, int fam, int kind, Trace& tr) {
+  if (fam == 0) tr.rec(em->as<x86::Emitter>()->nop()); else tr.rec(em->as<a64::Emitter>()->nop());
+  tr.flag(em->new_label().is_valid());
+  tr.flag(em->new_named_label("poke", 4).is_valid());
+  tr.rec(em->bind(Label(0)));
+  tr.rec(em->align(AlignMode::kCode, 16));
+  tr.rec(em->embed("abcd", 4));
+  tr.rec(em->embed_label(Label(0)));
+  tr.rec(em->comment("poke"));
+  tr.rec(em->commentf("poke %d", 1));
+  tr.rec(em->section(nullptr));
+  if (kind != K_ASM) tr.rec(static_cast<BaseBuilder*>(em)->run_passes());
+  if (kind == K_CMP) {
+    BaseCompiler* c = static_cast<BaseCompiler*>(em);
+    tr.flag(c->add_func(FuncSignature::build<int, int>()) != nullptr);
+    if (fam == 0) tr.flag(static_cast<x86::Compiler*>(c)->new_gp32("poke").is_valid()); else tr.flag(static_cast<a64::Compiler*>(c)->new_gp32("poke").is_valid());
+    tr.rec(c->end_func());
+  }
+  tr.rec(em->finalize());
+}
+struct CountEH : public ErrorHandler { uint64_t n = 0; void handle_error(Error, const char*, BaseEmitter*) override { n++; } };
+static std::map<int, PokeResult> g_fresh_poke;
+static const PokeResult& fresh_poke(int fam, int kind, bool own_eh) {
+  int key = (fam * 4 + kind) * 2 + int(own_eh);
+  auto it = g_fresh_poke.find(key);
+  if (it != g_fresh_poke.end()) return it->second;
+  PokeResult pr;
+  {
+    AwPause pause_watch;
+    std::unique_ptr<BaseEmitter> em(mk_emitter(fam, kind));
+    snapshot_emitter(em.get(), kind, nullptr, nullptr, false, false, pr.state);
+    CountEH eh; if (own_eh) em->set_error_handler(&eh);
+    Trace tr; poke_calls(em.get(), fam, kind, tr);
+    em->set_error_handler(nullptr);
+    pr.trace = tr.s; pr.handler_calls = eh.n;
+  }
+  return g_fresh_poke.emplace(key, std::move(pr)).first->second;
 }
 
 // =========================================================================================================
@@ -1607,21 +1954,29 @@ static int cls_of_field(const std::string& f) {
   return CL_SHAPE;
 }
 
-enum : uint32_t { LEFT_ERR = 1, LEFT_UNBOUND = 2, LEFT_SECTIONS = 4, LEFT_RELOCS = 8, LEFT_NODES = 16, LEFT_ONESHOT = 32, LEFT_OPENFUNC = 64, LEFT_ADDRTAB = 128, LEFT_POSTED = 256 };
-static const char* kLeftNames[9] = { "error", "unbound-labels/fixups", "extra-sections", "relocations", "unfinalized-nodes", "one-shot-state", "open-function", "address-table", "relocated-image" };
+enum : uint32_t { LEFT_ERR = 1, LEFT_UNBOUND = 2, LEFT_SECTIONS = 4, LEFT_RELOCS = 8, LEFT_NODES = 16, LEFT_ONESHOT = 32, LEFT_OPENFUNC = 64, LEFT_ADDRTAB = 128, LEFT_POSTED = 256,
+                  LEFT_TWEAK = 512 };
+enum { kNumLeft = 10 };
+static const char* kLeftNames[kNumLeft] = { "error", "unbound-labels/fixups", "extra-sections", "relocations", "unfinalized-nodes", "one-shot-state", "open-function", "address-table", "relocated-image",
+                                            "text-section-fields-set-by-user" };
 
 struct Stats {
   uint64_t steps[OP_COUNT] {}, skipped[OP_COUNT] {};
   uint64_t probes[2][3][3] {};          // [full/append][kind][arch]
   uint64_t probe_err_programs = 0;
-  uint64_t cleans_with_leftover[9] {}, cleans = 0, cleans_leftover_any = 0;
-  uint64_t static_hist = 0, noise_hist = 0, static_sizes[10] {};
+  uint64_t cleans_with_leftover[kNumLeft] {}, cleans = 0, cleans_leftover_any = 0;
+  uint64_t inits[kNumFeatSel] {}, probes_by_feat[kNumFeatSel] {}, probes_after_tweak = 0, tweaks[4] {};
+  uint64_t pokes = 0, poke_calls = 0, pokes_own_eh = 0, pokes_own_logger = 0, away_runs = 0, away_compared = 0, away_spanning_clean = 0;
+  std::map<std::string, uint64_t> poke_by_clean, away_by;
+  uint64_t append_behind_funcs = 0, append_behind_other_variant = 0;
+  uint64_t feat_checks = 0, feat_sensitive = 0;   // probes whose fresh output was also generated under another feature set / ... and differed
+  uint64_t static_hist = 0, noise_hist = 0, static_sizes[10] {}, quarantine_hist = 0;
   uint64_t cfg_log[3] {}, cfg_loglvl[2] {}, cfg_eh[3] {}, cfg_diag[4] {}, probes_with_logger = 0, probes_with_eh = 0, probes_with_diag = 0, probes_static = 0, probes_after_noise = 0;
   uint64_t nondet_checks = 0, state_checks = 0, log_calls = 0, eh_calls = 0, expected_api_errors = 0;
   // address of the .text buffer mod 64: of the recycled run, of its fresh control, of the second twin; pairs by equal / different residue
   uint64_t res_recycled[64] {}, res_fresh[64] {}, res_twin[64] {};
   uint64_t pairs_diff = 0, pairs_same = 0, pairs_wide = 0, pairs_wide_diff = 0, twin_diff = 0, twin_same = 0, twin_wide = 0, twin_wide_diff = 0;
-  std::map<std::string, uint64_t> progs_probed;
+  std::map<std::string, uint64_t> progs_probed, progs_err;
 };
 static Stats ST;
 
@@ -1636,14 +1991,20 @@ struct Outcome {
 static void run_history(const HistCfg& hc, const std::vector<Step>& S, Outcome& O, bool count) {
   g_count_probe_calls = count;
   { Rng pr(hc.pseed ^ 0x48454150ull); heap_perturb(pr); }   // the recycled holder and everything it allocates start somewhere else
+  g_aw_quarantine = hc.quarantine;
   Rig R(hc);
   CodeHolder& code = *R.code;
   int arch = -1;                       // architecture of the initialised holder
+  int feat = 0; bool has_base = false; // how it was initialised (reinit() keeps all of it)
+  bool tweaked = false, tweak_cleaned = false;
   bool clean_full = false, append_ok = false, asm_stale = false, posted = false, noise_seen = false;
   bool spent[2][3] {}, pending[2][3] {}, unfin[2][3] {}, used[2][3] {};
   uint32_t left = 0; bool leftover_clean_seen = false; std::string last_clean = "init";
   uint64_t stale_log0 = g_stale_log, stale_eh0 = g_stale_eh;
-  if (count) { if (hc.static_size) { ST.static_hist++; for (int i = 0; i < 10; i++) if (kStaticSizes[i] == hc.static_size) ST.static_sizes[i]++; } if (hc.noise) ST.noise_hist++; }
+  // an emitter that works on the other holder: what it generated there (finalized and compared when it comes back)
+  struct Away { bool active = false; int fam = 0, kind = 0, arch = 0; ProbeSpec sp; std::unique_ptr<Ctx> ctx; bool first_holder_cleaned = false; size_t step = 0; } away;
+  std::vector<uint32_t> fn_hist[2];    // per-function settings of the functions an attached Compiler holds (not finalized yet)
+  if (count) { if (hc.static_size) { ST.static_hist++; for (int i = 0; i < 10; i++) if (kStaticSizes[i] == hc.static_size) ST.static_sizes[i]++; } if (hc.noise) ST.noise_hist++; if (hc.quarantine && kAsanBuild) ST.quarantine_hist++; }
 
   auto fail_sub = [&](int cls, int step, const std::string& what, const std::string& prelim, const std::string& sub, bool fatal) {
     std::string id = kClsNames[cls]; if (!sub.empty()) id += ":" + sub;
@@ -1677,12 +2038,47 @@ static void run_history(const HistCfg& hc, const std::vector<Step>& S, Outcome& 
       if (kk == K_CMP && R.em[ff][kk] && R.attached(ff, kk) && static_cast<BaseCompiler*>(R.em[ff][kk])->func()) l |= LEFT_OPENFUNC;
     }
     if (posted) l |= LEFT_POSTED;
-    if (count) { ST.cleans++; if (l) ST.cleans_leftover_any++; for (int i = 0; i < 9; i++) if (l & (1u << i)) ST.cleans_with_leftover[i]++; }
+    if (count) { ST.cleans++; if (l) ST.cleans_leftover_any++; for (int i = 0; i < kNumLeft; i++) if (l & (1u << i)) ST.cleans_with_leftover[i]++; }
     if (l) leftover_clean_seen = true;
+    if (f < 0 && tweaked) { tweak_cleaned = true; tweaked = false; }
+    if (f < 0 && away.active) away.first_holder_cleaned = true;
     last_clean = how;
   };
   auto on_holder_clean = [&]() { left = 0; posted = false; };
   auto detach_all_flags = [&]() { for (int f = 0; f < 2; f++) for (int k = 0; k < 3; k++) { spent[f][k] = false; unfin[f][k] = false; used[f][k] = false; clear_pending(f, k); } asm_stale = false; };
+
+  auto away_back = [&](int si, uint32_t how) {
+        int k = away.kind;
+        int fam = away.fam;
+        BaseEmitter* em = R.em[fam][k];
+        CodeHolder& B = *R.code2;
+        Fields F; fadd(F, "setup", "0,0");
+        Label none;
+        g_count_probe_calls = false; probe_finish(*away.ctx, nullptr, away.sp, none, F); g_count_probe_calls = count;
+        away.ctx.reset();
+        const FreshResult& fr = fresh_control(away.sp, hc.pseed);
+        std::string what, fld = diff_fields(F, fr.f, &what);
+        if (count) { ST.away_compared++; if (away.first_holder_cleaned) ST.away_spanning_clean++; ST.away_by[fmtv("%s/%s", kKindNames[k], kArchNames[away.arch])]++; }
+        away.active = false;
+        if (!fld.empty()) {
+          fail(cls_of_field(fld), int(si), fmtv("program %s generated in a second holder while the first one %s: ", away.sp.str().c_str(), away.first_holder_cleaned ? "was reset / re-initialised" : "stayed in use") + what,
+               fmtv("other-holder:%s:%s:%s", kClsNames[cls_of_field(fld)], kKindNames[k], kProgs[away.sp.prog].name));
+          return;
+        }
+        switch (how) {
+          case 0: expect(B.detach(em), Error::kOk, int(si), "detach-other-holder"); break;
+          case 1: B.reset(ResetPolicy::kSoft); break;
+          case 2: B.reset(ResetPolicy::kHard); break;
+          default: R.drop_other(); break;
+        }
+        if (em->code() != nullptr) { fail(CL_API, int(si), "emitter still attached after the other holder let it go", "api:other-holder-detach"); return; }
+        spent[fam][k] = false; unfin[fam][k] = false; used[fam][k] = false; clear_pending(fam, k);
+        leftover_clean_seen = true;
+        if (code.is_initialized() && arch >= 0 && fam_of(arch) == fam) {
+          expect(code.attach(em), Error::kOk, int(si), "attach");
+          if (k == K_ASM) asm_stale = false;
+        }
+  };
 
   for (size_t si = 0; si < S.size() && !O.stop; si++) {
     const Step& s = S[si];
@@ -1692,14 +2088,16 @@ static void run_history(const HistCfg& hc, const std::vector<Step>& S, Outcome& 
     switch (s.op) {
       case OP_INIT: {
         if (code.is_initialized()) { expect(code.init(Environment(arch_of(s.arch))), Error::kAlreadyInitialized, int(si), "init-twice"); break; }
-        expect(code.init(Environment(arch_of(s.arch)), s.a ? base_of(s.arch) : Globals::kNoBaseAddress), Error::kOk, int(si), "init");
-        arch = s.arch; clean_full = true; append_ok = true; on_holder_clean();
+        expect(do_init(code, s.arch, s.a != 0, int(s.b)), Error::kOk, int(si), s.b ? "init-with-features" : "init");
+        arch = s.arch; feat = int(s.b); has_base = s.a != 0; clean_full = true; append_ok = true; on_holder_clean();
+        if (count) ST.inits[s.b % kNumFeatSel]++;
         break;
       }
       case OP_SETCFG: {
         int fam = arch >= 0 ? fam_of(arch) : 0;
         BaseEmitter* em = R.get(fam, k);
         if (pending[fam][k]) { ran = false; break; }
+        if (R.code2 && em->code() == R.code2) { ran = false; break; }   // away on the other holder: its options stay as they are until it is back
         Res hr = make_res(cfg_loglvl(s.a) == 0 ? cfg_log(s.a) : 0, cfg_fmt(s.a), cfg_eh(s.a) == 1);
         Res er = make_res(cfg_loglvl(s.a) == 1 ? cfg_log(s.a) : 0, cfg_fmt(s.a), cfg_eh(s.a) == 2);
         if (code.is_initialized()) {
@@ -1723,6 +2121,7 @@ static void run_history(const HistCfg& hc, const std::vector<Step>& S, Outcome& 
           expect(code.attach(em), Error::kInvalidArch, int(si), "attach-wrong-arch"); break;
         }
         bool was = R.attached(fam, k);
+        if (em->code() && !was) { expect(code.attach(em), Error::kInvalidState, int(si), "attach-while-attached-to-another-holder"); break; }
         expect(code.attach(em), Error::kOk, int(si), was ? "attach-again" : "attach");
         if (!was) { spent[fam][k] = false; unfin[fam][k] = false; used[fam][k] = false; if (k == K_ASM) asm_stale = false; }
         break;
@@ -1742,9 +2141,10 @@ static void run_history(const HistCfg& hc, const std::vector<Step>& S, Outcome& 
         if (!R.em[fam][k]) { ran = false; break; }
         if (R.attached(fam, k)) note_clean("recreate", fam, k);
         BaseEmitter* em = R.em[fam][k];
+        if (away.active && away.fam == fam && away.kind == k) { away.active = false; away.ctx.reset(); }   // destroyed while attached to the other holder (which unlinks it)
         em->set_logger(nullptr); em->set_error_handler(nullptr);
         R.retire(R.em_res[fam][k]);
-        delete em; R.em[fam][k] = nullptr;
+        R.drop(fam, k);
         R.get(fam, k);
         spent[fam][k] = false; unfin[fam][k] = false; used[fam][k] = false; clear_pending(fam, k);
         break;
@@ -1753,7 +2153,7 @@ static void run_history(const HistCfg& hc, const std::vector<Step>& S, Outcome& 
         if (code.is_initialized()) note_clean(s.op == OP_RESET_SOFT ? "reset_soft" : "reset_hard", -1, -1);
         code.reset(s.op == OP_RESET_SOFT ? ResetPolicy::kSoft : ResetPolicy::kHard);
         if (code.is_initialized()) fail(CL_API, int(si), "holder still initialised after reset()", "api:reset");
-        for (int f = 0; f < 2; f++) for (int kk = 0; kk < 3; kk++) if (R.em[f][kk] && R.em[f][kk]->code()) fail(CL_API, int(si), "emitter still attached after reset()", "api:reset-detach");
+        for (int f = 0; f < 2; f++) for (int kk = 0; kk < 3; kk++) if (R.em[f][kk] && R.em[f][kk]->code() == &code) fail(CL_API, int(si), "emitter still attached after reset()", "api:reset-detach");
         R.retire(R.holder_res);       // the holder dropped its logger / handler: the user may destroy them
         detach_all_flags(); arch = -1; clean_full = false; append_ok = false; on_holder_clean();
         break;
@@ -1762,7 +2162,7 @@ static void run_history(const HistCfg& hc, const std::vector<Step>& S, Outcome& 
         if (code.is_initialized()) note_clean("newholder", -1, -1);
         R.new_holder();
         if (code.is_initialized()) fail(CL_API, int(si), "a new holder is initialised", "api:newholder");
-        for (int f = 0; f < 2; f++) for (int kk = 0; kk < 3; kk++) if (R.em[f][kk] && R.em[f][kk]->code()) fail(CL_API, int(si), "emitter still attached after its holder was destroyed", "api:newholder-detach");
+        for (int f = 0; f < 2; f++) for (int kk = 0; kk < 3; kk++) if (R.em[f][kk] && R.em[f][kk]->code() == &code) fail(CL_API, int(si), "emitter still attached after its holder was destroyed", "api:newholder-detach");
         R.retire(R.holder_res);       // the holder's logger / handler went away with it
         detach_all_flags(); arch = -1; clean_full = false; append_ok = false; on_holder_clean();
         break;
@@ -1775,6 +2175,87 @@ static void run_history(const HistCfg& hc, const std::vector<Step>& S, Outcome& 
         break;
       }
       case OP_NOISE: { Rng nr(s.seed); heap_noise(R, nr); noise_seen = true; break; }
+      case OP_POKE: {
+        // calls on a detached emitter: same answers, same handler calls and same public state as an emitter that was never attached
+        int fam = arch >= 0 ? fam_of(arch) : int(s.seed & 1);
+        if (!R.em[fam][k] || R.em[fam][k]->code() != nullptr) fam ^= 1;
+        if (!R.em[fam][k] || R.em[fam][k]->code() != nullptr) { ran = false; break; }
+        BaseEmitter* em = R.em[fam][k];
+        Res& er = R.em_res[fam][k];
+        const PokeResult& want = fresh_poke(fam, k, er.eh != nullptr);
+        Fields SF; snapshot_emitter(em, k, er.lg, er.eh, er.lg != nullptr, er.eh != nullptr, SF);
+        for (size_t i = 0; i < SF.size() && i < want.state.size(); i++)
+          if (SF[i].second != want.state[i].second)
+            fail_sub(CL_STATE, int(si), fmtv("after %s, detached emitter: %s is '%s', on an emitter that was never attached '%s'", last_clean.c_str(), SF[i].first.c_str(), SF[i].second.c_str(), want.state[i].second.c_str()),
+                     fmtv("state:detached:%s:%s", kKindNames[k], SF[i].first.c_str()), "detached:" + SF[i].first, false);
+        uint64_t own0 = er.eh ? er.eh->n : 0, hold0 = R.holder_res.eh ? R.holder_res.eh->n : 0;
+        Trace tr; poke_calls(em, fam, k, tr);
+        if (count) { ST.pokes++; ST.poke_calls += tr.n; ST.poke_by_clean[last_clean]++; if (er.eh) ST.pokes_own_eh++; if (er.lg) ST.pokes_own_logger++; }
+        if (tr.s != want.trace)
+          fail(CL_TRACE, int(si), fmtv("calls on the detached %s emitter (after %s) answer '%s', an emitter that was never attached answers '%s'", kKindNames[k], last_clean.c_str(), tr.s.c_str(), want.trace.c_str()),
+               fmtv("detached:error-codes:%s:%s", kKindNames[k], last_clean.c_str()));
+        else if ((er.eh ? er.eh->n - own0 : 0) != want.handler_calls)
+          fail(CL_API, int(si), fmtv("calls on the detached %s emitter (after %s) called its own error handler %llu times, an emitter that was never attached calls it %llu times", kKindNames[k], last_clean.c_str(),
+               (ull)(er.eh ? er.eh->n - own0 : 0), (ull)want.handler_calls), fmtv("detached:handler-calls:%s", kKindNames[k]));
+        else if (R.holder_res.eh && R.holder_res.eh->n != hold0)
+          fail(CL_API, int(si), fmtv("calls on the detached %s emitter (after %s) called the error handler of the holder it was detached from", kKindNames[k], last_clean.c_str()), fmtv("detached:holder-handler-called:%s", kKindNames[k]));
+        break;
+      }
+      case OP_MIGRATE_OUT: {
+        // the emitter leaves the first holder (which stays alive and in use) and generates a program in a second one
+        int a2 = s.arch, fam = fam_of(a2);
+        const Prog& P = kProgs[s.prog];
+        if (away.active || !P.fn[fam] || !(P.kinds & (1u << k)) || pending[fam][k]) { ran = false; break; }
+        BaseEmitter* em = R.get(fam, k);
+        CodeHolder& B = *R.other();
+        if (B.is_initialized()) B.reset((s.a & 1) ? ResetPolicy::kHard : ResetPolicy::kSoft);
+        expect(do_init(B, a2, false, 0), Error::kOk, int(si), "init-other-holder");
+        if (R.attached(fam, k)) {
+          expect(B.attach(em), Error::kInvalidState, int(si), "attach-while-attached-to-another-holder");
+          note_clean("detach", fam, k);
+          expect(code.detach(em), Error::kOk, int(si), "detach");
+          spent[fam][k] = false; unfin[fam][k] = false; used[fam][k] = false; clear_pending(fam, k);
+        }
+        expect(B.attach(em), Error::kOk, int(si), "attach-other-holder");
+        if (O.stop) break;
+        {
+          Fields SF; Res& er = R.em_res[fam][k];
+          snapshot_state(B, em, k, er.lg, er.eh, er.lg != nullptr, er.eh != nullptr, nullptr, nullptr, a2, false, 0, 1, SF);
+          const Fields& FS = fresh_state(a2, k);
+          for (size_t i = 0; i < SF.size() && i < FS.size(); i++)
+            if (SF[i].second != FS[i].second)
+              fail_sub(CL_STATE, int(si), fmtv("after %s, before %s: %s is '%s', on fresh objects '%s'", last_clean.c_str(), step_token(s, true).c_str(), SF[i].first.c_str(), SF[i].second.c_str(), FS[i].second.c_str()),
+                       fmtv("state:%s:%s", kKindNames[k], SF[i].first.c_str()), SF[i].first, false);
+          if (count) ST.state_checks++;
+        }
+        away.active = true; away.fam = fam; away.kind = k; away.arch = a2; away.first_holder_cleaned = false; away.step = si;
+        ProbeSpec& sp = away.sp;
+        sp = ProbeSpec(); sp.arch = a2; sp.kind = k; sp.prog = s.prog; sp.seed = s.seed; sp.base = false; sp.feat = 0; sp.val = uint32_t(em->diagnostic_options()) & 3u; sp.fin = 0; sp.post = (s.a & 2) != 0;
+        sp.append = false; sp.pfx = "f_";
+        away.ctx.reset(new Ctx(B, em, k, a2, s.seed, sp.pfx));
+        Label none;
+        g_count_probe_calls = false; probe_generate(*away.ctx, sp, none); g_count_probe_calls = count;
+        if (count) ST.away_runs++;
+        break;
+      }
+      case OP_MIGRATE_BACK: {
+        if (!away.active || away.kind != k) { ran = false; break; }
+        away_back(int(si), s.a & 3);
+        break;
+      }
+      case OP_TWEAK: {
+        // the user sets fields of the built-in section directly (public setters of Section)
+        if (!code.is_initialized()) { ran = false; break; }
+        Section* t = code.text_section();
+        static const uint32_t al[3] = { 32, 64, 4096 };
+        if (s.a & 1) t->set_alignment(al[s.b % 3]);
+        if (s.a & 2) t->add_flags(SectionFlags::kZeroInitialized);
+        if (s.a & 4) t->set_offset(0x1000u * (1 + s.b % 5));
+        if (s.a & 8) t->set_virtual_size(0x20000u + s.b);
+        if (count) for (int i = 0; i < 4; i++) if (s.a & (1u << i)) ST.tweaks[i]++;
+        tweaked = true; left |= LEFT_TWEAK; clean_full = false; append_ok = false;
+        break;
+      }
       case OP_ONESHOT: {
         if (arch < 0) { ran = false; break; }
         int fam = fam_of(arch);
@@ -1804,6 +2285,7 @@ static void run_history(const HistCfg& hc, const std::vector<Step>& S, Outcome& 
       case OP_POST: {
         if (!code.is_initialized()) { ran = false; break; }
         Fields f; observe_full(code, arch, true, f);
+        if (code.has_base_address()) has_base = true;   // relocate_to_base() gives the holder a base address, which reinit() documents to keep
         posted = true; asm_stale = true; clean_full = false; append_ok = false;
         break;
       }
@@ -1825,11 +2307,11 @@ static void run_history(const HistCfg& hc, const std::vector<Step>& S, Outcome& 
           Fields SF;
           Res& er = R.em_res[fam][k];
           snapshot_state(code, em, k, er.lg ? er.lg : R.holder_res.lg, er.eh ? static_cast<ErrorHandler*>(er.eh) : static_cast<ErrorHandler*>(R.holder_res.eh), er.lg != nullptr, er.eh != nullptr,
-                         R.holder_res.lg, R.holder_res.eh, SF);
+                         R.holder_res.lg, R.holder_res.eh, arch, has_base, feat, R.count_attached(code), SF);
           const Fields& FS = fresh_state(arch, k);
           for (size_t i = 0; i < SF.size() && i < FS.size(); i++) {
             const std::string& fn = SF[i].first;
-            if (!full_probe && !(fn.rfind("em.", 0) == 0 || fn.rfind("cmp.", 0) == 0 || fn == "bld.nodes" || fn == "bld.cursor" || fn == "bld.passes")) continue;
+            if (!full_probe && !(fn.rfind("em.", 0) == 0 || fn.rfind("cmp.", 0) == 0 || fn == "bld.nodes" || fn == "bld.cursor" || fn == "bld.passes" || fn == "code.attached_emitters")) continue;
             if (SF[i].second != FS[i].second)
               fail_sub(CL_STATE, int(si), fmtv("after %s, before %s: %s is '%s', on fresh objects '%s'", last_clean.c_str(), step_token(s, true).c_str(), fn.c_str(), SF[i].second.c_str(), FS[i].second.c_str()),
                        fmtv("state:%s:%s", kKindNames[k], fn.c_str()), fn, false);
@@ -1840,7 +2322,9 @@ static void run_history(const HistCfg& hc, const std::vector<Step>& S, Outcome& 
         if (!full_probe && !app_probe) {
           // ---- junk generation: its only purpose is to leave state behind
           Ctx c(code, em, k, arch, s.seed, "f_");
+          g_fn_log.clear();
           P.fn[fam](c);
+          if (k == K_CMP) { if (!unfin[fam][k]) fn_hist[fam].clear(); fn_hist[fam].insert(fn_hist[fam].end(), g_fn_log.begin(), g_fn_log.end()); }
           bool fin = k != K_ASM && ((s.a & 1) || s.op != OP_GEN);
           if (fin) { c.tr.rec(em->finalize()); spent[fam][k] = true; asm_stale = true; }
           else if (k != K_ASM) unfin[fam][k] = true;
@@ -1850,13 +2334,13 @@ static void run_history(const HistCfg& hc, const std::vector<Step>& S, Outcome& 
           break;
         }
         ProbeSpec sp;
-        sp.arch = arch; sp.kind = k; sp.prog = s.prog; sp.seed = s.seed; sp.base = code.has_base_address();
+        sp.arch = arch; sp.kind = k; sp.prog = s.prog; sp.seed = s.seed; sp.base = has_base; sp.feat = feat;
         sp.val = uint32_t(em->diagnostic_options()) & 3u; sp.fin = (k != K_ASM && (s.a & 1)) ? 1 : 0; sp.post = full_probe && (s.a & 2); sp.append = app_probe;
         sp.pfx = app_probe ? fmtv("a%zu_", si) : std::string("f_");
         BaseEmitter* ser = nullptr;
         if (sp.fin == 1) {
           ser = R.get(fam, K_ASM);
-          if (pending[fam][K_ASM]) { sp.fin = 0; ser = nullptr; }
+          if (pending[fam][K_ASM] || (ser->code() && ser->code() != &code)) { sp.fin = 0; ser = nullptr; }
           else {
             if (R.attached(fam, K_ASM)) expect(code.detach(ser), Error::kOk, int(si), "detach");   // re-attach: positions it at the end of .text
             expect(code.attach(ser), Error::kOk, int(si), "attach");
@@ -1865,7 +2349,13 @@ static void run_history(const HistCfg& hc, const std::vector<Step>& S, Outcome& 
           }
         }
         Fields F; fadd(F, "setup", "0,0");
+        g_fn_log.clear();
         uint32_t nerr = run_probe(code, em, ser, sp, F);
+        if (count && app_probe && k == K_CMP && unfin[fam][k] && !fn_hist[fam].empty() && !g_fn_log.empty()) {
+          // Q's functions stand behind earlier functions of the same Compiler: were those compiled under other per-function settings?
+          ST.append_behind_funcs++;
+          for (uint32_t v : fn_hist[fam]) if (v != g_fn_log[0]) { ST.append_behind_other_variant++; break; }
+        }
         int rres = text_residue(code);
         const FreshResult& fr = fresh_control(sp, hc.pseed, rres);
         int fres = fr.res64;
@@ -1879,11 +2369,12 @@ static void run_history(const HistCfg& hc, const std::vector<Step>& S, Outcome& 
             bool d = rres != fres; if (d) ST.pairs_diff++; else ST.pairs_same++;
             if (P.flags & F_WIDEALIGN) { ST.pairs_wide++; if (d) ST.pairs_wide_diff++; }
           }
-          ST.probes[app_probe ? 1 : 0][k][arch]++; ST.progs_probed[P.name]++; if (fr.nerr) ST.probe_err_programs++;
+          ST.probes[app_probe ? 1 : 0][k][arch]++; ST.progs_probed[P.name]++; if (fr.nerr) { ST.probe_err_programs++; ST.progs_err[P.name]++; }
           if (R.holder_res.lg || R.em_res[fam][k].lg) ST.probes_with_logger++;
           if (R.holder_res.eh || R.em_res[fam][k].eh) ST.probes_with_eh++;
           if (uint32_t(em->diagnostic_options())) ST.probes_with_diag++;
           if (hc.static_size) ST.probes_static++;
+          ST.probes_by_feat[feat % kNumFeatSel]++; if (tweak_cleaned) ST.probes_after_tweak++;
           if (noise_seen) ST.probes_after_noise++;
         }
         if (!app_probe && O.canon.size() < 6) O.canon.emplace_back(sp.str(), fr.hash);
@@ -1908,8 +2399,17 @@ static void run_history(const HistCfg& hc, const std::vector<Step>& S, Outcome& 
             break;
           }
         }
+        if (count && (P.flags & F_FEAT) && fam == 0 && k == K_CMP && !app_probe) {
+          // evidence: is this probe's output a function of the holder's CPU features at all?
+          uint64_t h0 = fresh_control(sp, hc.pseed).hash;
+          ProbeSpec sp2 = sp; sp2.feat = feat == 3 ? 0 : 3;
+          g_count_probe_calls = false;
+          uint64_t h1 = fresh_control(sp2, hc.pseed).hash;
+          g_count_probe_calls = count;
+          ST.feat_checks++; if (h0 != h1) ST.feat_sensitive++;
+        }
         if (sp.kind != K_ASM) { spent[fam][k] = true; if (sp.fin == 0) asm_stale = true; }
-        if (sp.post) { posted = true; asm_stale = true; append_ok = false; }
+        if (sp.post) { posted = true; asm_stale = true; append_ok = false; if (code.has_base_address()) has_base = true; }
         if (nerr) left |= LEFT_ERR;
         if (nerr || !(P.flags & F_CLEAN)) append_ok = false;
         clean_full = false;
@@ -1917,12 +2417,15 @@ static void run_history(const HistCfg& hc, const std::vector<Step>& S, Outcome& 
       }
       default: ran = false; break;
     }
+    aw_poll();
     if (count) { if (ran) ST.steps[s.op]++; else ST.skipped[s.op]++; }
     if (ran) { O.sig += step_token(s, false); O.sig += ' '; }
     if (g_stale_log != stale_log0) { fail(CL_STALE_LOG, int(si), fmtv("a logger that is no longer installed was called during step %s", step_token(s, true).c_str()), std::string("stale-logger:") + kOpNames[s.op]); stale_log0 = g_stale_log; }
     if (g_stale_eh != stale_eh0) { fail(CL_STALE_EH, int(si), fmtv("an error handler that is no longer installed was called during step %s", step_token(s, true).c_str()), std::string("stale-eh:") + kOpNames[s.op]); stale_eh0 = g_stale_eh; }
     R.tick();
   }
+  if (away.active && !O.stop) away_back(int(S.size()) - 1, 0);   // whatever was generated in the other holder is finalized and compared
+  aw_poll();
   // before the objects go away: emitter-level loggers are uninstalled by their owner
   for (int f = 0; f < 2; f++) for (int k = 0; k < 3; k++) if (R.em[f][k]) { R.em[f][k]->set_logger(nullptr); R.em[f][k]->set_error_handler(nullptr); }
 }
@@ -1936,6 +2439,7 @@ static void make_history(uint64_t seed, uint64_t idx, HistCfg& hc, std::vector<S
   hc = HistCfg(); S.clear();
   gen_history(r, hc, S);
   hc.pseed = r.next();
+  hc.quarantine = (hc.pseed >> 17) & 1;
 }
 
 struct ChildResult { std::vector<std::string> ids, whats; bool has(const std::string& id) const { return std::find(ids.begin(), ids.end(), id) != ids.end(); } };
@@ -1953,7 +2457,7 @@ static ChildResult run_in_child(const HistCfg& hc, const std::vector<Step>& S) {
     signal(SIGALRM, SIG_DFL); alarm(g_hang_seconds);
     g_viol_fd = pfd[1];
     Outcome O; run_history(hc, S, O, false);
-    g_fresh_cache.clear(); g_fresh_state.clear();
+    g_fresh_cache.clear(); g_fresh_state.clear(); g_fresh_poke.clear();
     if (leak_check_now()) { std::string msg = "leak\tLeakSanitizer: memory of the history is unreachable after all objects were destroyed\n"; ssize_t wr = write(pfd[1], msg.data(), msg.size()); (void)wr; }
     close(pfd[1]);
     _exit(0);
@@ -1982,6 +2486,7 @@ static std::string history_str(const HistCfg& hc, const std::vector<Step>& S, bo
   std::string o;
   if (hc.static_size) o += full ? fmtv("[static_arena=%u] ", hc.static_size) : "[static_arena] ";
   if (hc.noise && full) o += "[heap-noise] ";
+  if (hc.quarantine && full && kAsanBuild) o += "[arena-quarantine] ";
   for (size_t i = 0; i < S.size(); i++) { if (S[i].op == OP_NOISE && !full) continue; if (i) o += ' '; o += step_token(S[i], full); }
   return o;
 }
@@ -2001,6 +2506,7 @@ static void shrink(HistCfg& hc, std::vector<Step>& S, const std::string& target,
     }
     // simplify parameters
     if (hc.static_size) { HistCfg h = hc; h.static_size = 0; if (still(h, S)) { hc = h; changed = true; } }
+    if (hc.quarantine) { HistCfg h = hc; h.quarantine = false; if (still(h, S)) { hc = h; changed = true; } }
     if (hc.noise) { HistCfg h = hc; h.noise = false; std::vector<Step> T2; for (auto& s : S) if (s.op != OP_NOISE) T2.push_back(s); if (still(h, T2)) { hc = h; S = T2; changed = true; } }
     for (size_t i = 0; i < S.size(); i++) {
       auto attempt = [&](Step ns) { if (memcmp(&ns, &S[i], sizeof ns) == 0) return; std::vector<Step> T2 = S; T2[i] = ns; if (still(hc, T2)) { S = T2; changed = true; } };
@@ -2018,6 +2524,11 @@ static void shrink(HistCfg& hc, std::vector<Step>& S, const std::string& target,
         if (s.op != OP_GEN && target.rfind("state:", 0) == 0) { Step n = S[i]; n.prog = 0; attempt(n); }   // state alarms do not depend on the probe program
       }
       if (s.op == OP_INIT) { Step n = S[i]; n.a = 0; attempt(n); }
+      if (s.op == OP_INIT) { Step n = S[i]; n.b = 0; attempt(n); }
+      if (s.op == OP_INIT && s.b > 1) { Step n = S[i]; n.b = 1; attempt(n); }
+      if (s.op == OP_MIGRATE_OUT) { { Step n = S[i]; n.seed = 0; attempt(n); } { Step n = S[i]; n.a = 0; attempt(n); } }
+      if (s.op == OP_MIGRATE_BACK) { Step n = S[i]; n.a = 0; attempt(n); }
+      if (s.op == OP_TWEAK) for (uint32_t bit = 1; bit <= 8; bit <<= 1) { Step n = S[i]; n.a &= ~bit; if (n.a) attempt(n); }
       if (s.op == OP_NEWHOLDER) { Step n = S[i]; n.op = OP_RESET_HARD; attempt(n); }
       if (s.op == OP_RESET_HARD) { Step n = S[i]; n.op = OP_RESET_SOFT; attempt(n); }
     }
@@ -2082,7 +2593,7 @@ int main(int argc, char** argv) {
     // leaks are looked for while the culprit can still be named
     if (((idx - first) & 31) == 31 || idx + 1 == first + nh) {
       leak_checks++;
-      g_fresh_cache.clear(); g_fresh_state.clear();
+      g_fresh_cache.clear(); g_fresh_state.clear(); g_fresh_poke.clear();
       if (leak_check_now()) {
         if (!viol.empty()) viol += ",";
         viol += fmtv("{\"idx\":%llu,\"cls\":\"leak\",\"id\":\"leak\",\"key\":\"leak\",\"what\":\"LeakSanitizer report within histories %llu..%llu\",\"history\":\"\",\"range\":[%llu,%llu]}",
@@ -2102,11 +2613,40 @@ int main(int argc, char** argv) {
   { bool f1 = true; for (int m = 0; m < 2; m++) for (int k = 0; k < 3; k++) for (int a = 0; a < 3; a++) { out += fmtv("%s\"%s/%s/%s\":%llu", f1 ? "" : ",", m ? "append" : "full", kKindNames[k], kArchNames[a], (ull)ST.probes[m][k][a]); f1 = false; } }
   out += "},\"progs_probed\":{";
   { bool f1 = true; for (auto& p : ST.progs_probed) { out += fmtv("%s\"%s\":%llu", f1 ? "" : ",", p.first.c_str(), (ull)p.second); f1 = false; } }
+  out += "},\"progs_err\":{";
+  { bool f1 = true; for (auto& p : ST.progs_err) { out += fmtv("%s\"%s\":%llu", f1 ? "" : ",", p.first.c_str(), (ull)p.second); f1 = false; } }
   out += "},\"leftover_at_clean\":{";
-  for (int i = 0; i < 9; i++) out += fmtv("%s\"%s\":%llu", i ? "," : "", kLeftNames[i], (ull)ST.cleans_with_leftover[i]);
+  for (int i = 0; i < kNumLeft; i++) out += fmtv("%s\"%s\":%llu", i ? "," : "", kLeftNames[i], (ull)ST.cleans_with_leftover[i]);
   out += fmtv("},\"cleans\":%llu,\"cleans_with_leftover\":%llu,\"probe_programs_with_errors\":%llu,\"expected_api_errors\":%llu,\"nondet_checks\":%llu", (ull)ST.cleans, (ull)ST.cleans_leftover_any,
               (ull)ST.probe_err_programs, (ull)ST.expected_api_errors, (ull)ST.nondet_checks);
   out += fmtv(",\"state_checks\":%llu", (ull)ST.state_checks);
+  out += fmtv(",\"probes_after_tweak\":%llu,\"feat_checks\":%llu,\"feat_sensitive\":%llu,\"append_behind_funcs\":%llu,\"append_behind_other_variant\":%llu",
+              (ull)ST.probes_after_tweak, (ull)ST.feat_checks, (ull)ST.feat_sensitive, (ull)ST.append_behind_funcs, (ull)ST.append_behind_other_variant);
+  out += fmtv(",\"arena_watch\":{\"arenas_registered\":%llu,\"arena_requests_seen\":%llu,\"resets_seen\":%llu,\"resets_with_retained_memory\":%llu,\"retained_blocks_behind_first\":%llu,\"bytes_poisoned\":%llu,"
+              "\"histories_quarantine_mode\":%llu,\"blocks_quarantined\":%llu,\"bytes_quarantined\":%llu}",
+              (ull)g_aw_tracked, (ull)g_aw_requests, (ull)g_aw_resets, (ull)g_aw_resets_retaining, (ull)g_aw_blocks, (ull)g_aw_bytes, (ull)ST.quarantine_hist, (ull)g_aw_quar_blocks, (ull)g_aw_quar_bytes);
+  out += fmtv(",\"pokes\":%llu,\"poke_calls\":%llu,\"pokes_own_eh\":%llu,\"pokes_own_logger\":%llu,\"away_runs\":%llu,\"away_compared\":%llu,\"away_spanning_clean\":%llu",
+              (ull)ST.pokes, (ull)ST.poke_calls, (ull)ST.pokes_own_eh, (ull)ST.pokes_own_logger, (ull)ST.away_runs, (ull)ST.away_compared, (ull)ST.away_spanning_clean);
+  out += ",\"poke_by_clean\":{";
+  { bool f1 = true; for (auto& p : ST.poke_by_clean) { out += fmtv("%s\"%s\":%llu", f1 ? "" : ",", p.first.c_str(), (ull)p.second); f1 = false; } }
+  out += "},\"away_by\":{";
+  { bool f1 = true; for (auto& p : ST.away_by) { out += fmtv("%s\"%s\":%llu", f1 ? "" : ",", p.first.c_str(), (ull)p.second); f1 = false; } }
+  out += "}";
+  out += fmtv(",\"init_by\":{\"init(env,base)\":%llu,\"init(env,no features,base)\":%llu,\"init(env,features2,base)\":%llu,\"init(env,features3,base)\":%llu,"
+              "\"probes/init(env,base)\":%llu,\"probes/no features\":%llu,\"probes/features2\":%llu,\"probes/features3\":%llu}",
+              (ull)ST.inits[0], (ull)ST.inits[1], (ull)ST.inits[2], (ull)ST.inits[3], (ull)ST.probes_by_feat[0], (ull)ST.probes_by_feat[1], (ull)ST.probes_by_feat[2], (ull)ST.probes_by_feat[3]);
+  out += fmtv(",\"tweaks\":{\"alignment\":%llu,\"flags\":%llu,\"offset\":%llu,\"virtual_size\":%llu}", (ull)ST.tweaks[0], (ull)ST.tweaks[1], (ull)ST.tweaks[2], (ull)ST.tweaks[3]);
+  {
+    std::string fv = ",\"fn_variants\":{", fc = ",\"fn_cc\":{", ic = ",\"invoke_cc\":{"; bool f1 = true, f2 = true, f3 = true;
+    for (int f = 0; f < 2; f++) for (int v = 0; v < 64; v++) if (g_fn_variants[f][v]) {
+      // family / calling-convention slot / avx / avx512 / preserved frame pointer
+      fv += fmtv("%s\"%s/cc%d%s%s%s\":%llu", f1 ? "" : ",", f ? "a64" : "x86", v & 7, (v & 8) ? "/avx" : "", (v & 16) ? "/avx512" : "", (v & 32) ? "/fp" : "", (ull)g_fn_variants[f][v]); f1 = false; }
+    for (int a = 0; a < 3; a++) for (int sl = 0; sl < 5; sl++) {
+      if (g_fn_cc[a][sl]) { fc += fmtv("%s\"%s/%s\":%llu", f2 ? "" : ",", kArchNames[a], kCCNames[a][sl], (ull)g_fn_cc[a][sl]); f2 = false; }
+      if (g_invoke_cc[a][sl]) { ic += fmtv("%s\"%s/%s\":%llu", f3 ? "" : ",", kArchNames[a], kCCNames[a][sl], (ull)g_invoke_cc[a][sl]); f3 = false; }
+    }
+    out += fv + "}" + fc + "}" + ic + "}";
+  }
   out += fmtv(",\"perturb\":{\"static_arena_histories\":%llu,\"heap_noise_histories\":%llu,\"probes_static_arena\":%llu,\"probes_after_heap_noise\":%llu,\"probes_with_logger\":%llu,\"probes_with_error_handler\":%llu,"
               "\"probes_with_diagnostics\":%llu,\"setcfg_string_logger\":%llu,\"setcfg_file_logger\":%llu,\"setcfg_logger_on_holder\":%llu,\"setcfg_logger_on_emitter\":%llu,\"setcfg_eh_holder\":%llu,\"setcfg_eh_emitter\":%llu,"
               "\"diag_validate_assembler\":%llu,\"diag_validate_intermediate\":%llu,\"diag_ra_annotate\":%llu,\"diag_ra_debug_all\":%llu,\"logger_calls\":%llu,\"handler_calls\":%llu}",
